@@ -1,3 +1,15 @@
+"""Sidecar contracts for the exported functions that had no T1 unit (agent `rest`).  Four sections (each begins with a banner and its own
+description; every section keeps its name prefix - ff_ / af_ / b2_ / sp_ - for module-level names):
+  1. func_full (C12): func_int_full, func_sum_full, func_get_full, func_gets_full for d = 1, 2, 3; helper units for grid_prep_opt(s) /
+     grid_flat with a tuple of sizes and func_basis on a 2-D batch                                         (gate ex.rest_ff)
+  2. anova_func (C13, C10, C09): anova_func, ANOVA_func.__init__, ANOVA_func.coeffs                        (gate ex.rest_af)
+  3. ANOVA.build_2 (C13, C10)                                                                              (gate ex.rest_b2)
+  4. sample_rand_poi (C14, C10), cdf_confidence (C18, C10), cross_act control tier with _inter_update / _amen_z (C10)   (gate ex.rest_sp)
+Model-table entries and spec symbols: ttvc/mx_rest.py; standard-model interpretations: lemmas/spotcheck_ext_rest.py.
+The hand-made mutants are listed in a comment block at the end of each section."""
+# ==================================================================================================
+# SECTION func_full (dense Chebyshev routines)
+# ==================================================================================================
 """Sidecar contracts for the dense ("full format") Chebyshev routines of teneva/func_full.py (C12): func_int_full, func_sum_full,
 func_get_full, func_gets_full, for the concrete numbers of dimensions d = 1, 2, 3.
 Model-table entries and spec symbols: ttvc/mx_rest.py; standard-model interpretations: lemmas/spotcheck_ext_rest.py."""
@@ -759,6 +771,35 @@ for _ff_d, _ff_ok, _ff_sk in ((1, 'number', True), (2, 'number', True), (2, 'lis
 
 
 # ----------------------------------------------------------------------------------------------
+# grid.grid_flat for a TUPLE of sizes (func_gets_full hands `A.shape` to grid_flat when m is None): a tuple is not one of the number
+# types of the first test, so the scalar branch is not taken and the function continues with `d = len(n)` and the iteration over n -
+# from there on a tuple and a list of the same integers are indistinguishable (len, iteration), which is what the units
+# grid.grid_flat.list / .array cover.  (The engine cannot run the mesh construction on a tuple of concrete length: this unit only
+# closes the dispatch gap.)
+
+@unit('grid.grid_flat.tuple_dispatch', props=('C12', 'C18'))
+def u_grid_flat_tuple(U):
+    import ast as _ast
+    fn = U.func('grid', 'grid_flat')
+    is_len = lambda s: isinstance(s, _ast.Assign) and _ast.unparse(s).replace(' ', '') == 'd=len(n)'
+    stop = lambda s: is_len(s) or isinstance(s, _ast.Return)          # the scalar branch is the first `return`
+    if not any(is_len(s) for s in fn.body):
+        raise M.ContractMismatch('grid_flat(): no statement `d = len(n)` after the scalar branch')
+    for dd in (1, 2, 3):
+        ex = U.executor(fn, stop_at=stop)
+        st = U.state()
+        st.vars.update(n=VTuple([z3.Int(f'n{k}') for k in range(dd)]))
+        res = U.run(ex, st, pre=[])
+        U.post(f'a-tuple-of-{dd}-sizes-is-not-taken-for-a-number: one path, it reaches d = len(n)', [],
+               z3.BoolVal(len(res) == 1 and res[0][1].kind == 'stop' and is_len(res[0][1].node)))
+    ex = U.executor(fn, stop_at=stop)
+    st = U.state()
+    st.vars.update(n=z3.Int('n'))
+    res = U.run(ex, st, pre=[])
+    U.post('control: a-number-takes-the-scalar-branch', [], z3.BoolVal(len(res) == 1 and res[0][1].kind == 'stop' and isinstance(res[0][1].node, _ast.Return)))
+
+
+# ----------------------------------------------------------------------------------------------
 # func_full.func_gets_full: the dense interpolant on a whole new Chebyshev grid, d = 1, 2, 3  -  CONTROL level
 #
 # The function is a composition of five library calls; proved here (for m = None and m = an integer):
@@ -987,3 +1028,1313 @@ for _ff_d in (1, 2, 3):
 #   s/Z = func_get_full(X, A, -1., +1.)/Z = func_get_full(X, A, 0., +1.)/      post func_get_full-gets-...-the-box-[-1, +1], post no-grid-point-is-skipped
 #   s/Z = func_get_full(X, A, -1., +1.)/Z = func_get_full(X, A, +1., -1.)/     call-pre func_get_full: a < b ...
 #   s/I = teneva.grid_flat(m)/I = teneva.grid_flat(n)/                         post grid_flat-gets-the-new-grid-sizes, call-pre reshape-preserves-size (m_int)
+# helper units (tools/mut.sh grid.py / func.py ...)
+#   grid.grid_flat.tuple_dispatch:   s/(int, float, np.int32, np.float32, np.int64, np.float64)/(int, float, tuple)/ ; `if not isinstance(..` ; `if True:`
+#                                    -> post a-tuple-of-k-sizes-is-not-taken-for-a-number (refuted); the second also post control: a-number-takes-the-scalar-branch
+#   grid.grid_prep_opt.int_tuple.*:  s/np.asanyarray(opt, dtype=kind)/np.asanyarray(opt, dtype=float)/ ; s/np.asanyarray(opt, dtype=kind)/np.asanyarray(opt[1:], dtype=kind)/
+#                                    -> post the-integer-vector-with-the-entries-of-the-tuple-... (refuted);  `isinstance(opt, (int, float, tuple))`: Unsupported
+#   grid.grid_prep_opts.tuple_n.*:   s/isinstance(item, (list, np.ndarray))/isinstance(item, (list, tuple, np.ndarray))/  -> raise-iff raises-only-if-a-list-like-bound-...
+#                                    s/n = grid_prep_opt(n, d, int, reps)/n = grid_prep_opt(n, d, float, reps)/       -> post option-n-is-normalised-by-grid_prep_opt-with-kind-int-...
+#                                    s/b = grid_prep_opt(b, d, float, reps)/b = grid_prep_opt(a, d, float, reps)/     -> post option-b-is-normalised-by-grid_prep_opt-with-kind-float-...
+#   func.func_basis.batch:           `- T[k - 2]` -> `+ T[k - 2]`: inv-keep loop0.rows-so-far-are-the-Chebyshev-polynomials;  `T[1] = 2. * X`: inv-init loop0.rows-so-far-...;
+#                                    `range(3, m)`: inv-keep loop0.rows-so-far-..., post layer-l-is-T_l(X)-elementwise
+
+
+# ==================================================================================================
+# SECTION anova_func
+# ==================================================================================================
+"""Sidecar contracts for teneva/anova_func.py: the wrapper anova_func, ANOVA_func.__init__ and the cached property ANOVA_func.coeffs
+(C13 functional variant; C10: nothing cached at construction, the cache is returned unchanged; C09: the overwrite flags of lstsq act on temporaries).
+ANOVA_func.cores is under contract in contracts/anova_more.py (unit anova_more.ANOVA_func.cores); what that unit ASSUMES about `self.coeffs`
+(a number followed by d float vectors of length n - 1) is PROVED here by the unit anova_func.ANOVA_func.coeffs.fit.
+Model-table entries, the value kind of the growing coefficient list and the spec symbols: ttvc/mx_rest.py (gate `ex.rest_af`); `self` is a
+record of the attributes a contract case uses (gate `ex.anova` of mx_anova), batches of points are 2-D float arrays with a denotation (gate
+`ex.functt` of mx_func)."""
+import ast
+import z3
+from ttvc.units import unit
+from ttvc.symex import VOpt, VStr, VRec, VSeq, VArr, VFunc, VTuple, VRef, VList, VSym, VOpaque, NONE, Z
+from ttvc import models as M, theory as T, vec as V
+from ttvc import mx_func as XF, mx_anova as XAN
+from ttvc import mx_rest as XAF
+from contracts import spec as S, grid as CG, func_more as CF, anova_more as CAM
+
+af_RA, af_RAA, af_IA = XAF.af_RA, XAF.af_RAA, XAF.af_IA
+af_s, af_k, af_i, af_q = z3.Ints('rest_af_s rest_af_kc rest_af_ic rest_af_q')
+
+
+# ----------------------------------------------------------------------------------------------
+# anova_func.anova_func (the wrapper) - control tier: which argument goes where, what is returned.
+#
+#   * exactly one object is constructed, ANOVA_func(X_trn, y_trn, n, a, b, lamb) - every argument of the wrapper at the parameter of the
+#     constructor that has the same name (positional or keyword form are the same call; a swapped a / b or a lamb / e mix-up is reported);
+#   * exactly one call of .cores on that object, with the caller's accuracy e as its only argument (e may be None: no truncation);
+#   * the result is what cores(e) returns, as it is.
+# The constructor and cores are call-site contracts that only record their arguments (units anova_func.ANOVA_func.__init__,
+# anova_more.ANOVA_func.cores); whole arrays / tensors are tokens.  NOT covered here: everything the two callees do.
+
+def af_is_real(v, want):
+    """the number handed over equals the parameter (a formula; False for anything that is not a number)"""
+    return M.to_real(v) == want if M.is_num(v) else z3.BoolVal(False)
+
+
+@unit('anova_func.anova_func', props=('C13',))
+def af_u_wrapper(U):
+    fn = U.func('anova_func', 'anova_func')
+    st = U.state()
+    n = z3.Int('n')
+    lamb = z3.Real('lamb')
+    e = S.opt_real('e')
+    X_trn, y_trn, a, b, out = [CAM._tok(x) for x in ('X_trn', 'y_trn', 'a', 'b', 'cores')]
+
+    def cores(ex, s, args, kw, node):
+        CAM._rec(s, 'cores', (list(args), dict(kw)))
+        return out
+
+    def ctor(ex, s, args, kw, node):
+        CAM._rec(s, 'ctor', (list(args), dict(kw)))
+        return s.alloc(VRec({'cores': VFunc('ANOVA_func.cores', cores)}))
+
+    ex = U.executor(fn, callees={'ANOVA_func': ctor})
+    ex.anova = True
+    ex.rest_af = True
+    st.vars.update(X_trn=X_trn, y_trn=y_trn, n=n, a=a, b=b, lamb=lamb, e=e)
+    res = U.run(ex, st)
+    U.assumed.append('ANOVA_func.__init__ / ANOVA_func.cores (units anova_func.ANOVA_func.__init__, anova_more.ANOVA_func.cores)')
+    U.cover('reachable', U.pre)
+    for p, o in res:
+        gc, gk = p.ghost.get('ctor', []), p.ghost.get('cores', [])
+        U.post('exactly-one-object-is-constructed-and-cores-is-called-once-on-it', p, z3.BoolVal(len(gc) == 1 and len(gk) == 1))
+        bc = CAM.bind_args('anova_func', 'ANOVA_func.__init__', *gc[0]) if len(gc) == 1 else None
+        okc = bc is not None and set(bc) == {'X_trn', 'y_trn', 'n', 'a', 'b', 'lamb'}
+        U.post('constructor-gets-exactly-(X_trn, y_trn, n, a, b, lamb)', p, z3.BoolVal(okc))
+        if okc:
+            U.post('constructor: the-samples-and-the-values-at-their-own-parameters', p, z3.BoolVal(bc['X_trn'] is X_trn and bc['y_trn'] is y_trn))
+            U.post('constructor: lower-bound-a-and-upper-bound-b-at-their-own-parameters (not swapped)', p, z3.BoolVal(bc['a'] is a and bc['b'] is b))
+            U.post('constructor: the-mode-size-n', p, Z(bc['n']) == n if M.is_intsort(bc['n']) else z3.BoolVal(False))
+            U.post('constructor: the-regularisation-parameter-is-lamb (not the accuracy e)', p, af_is_real(bc['lamb'], lamb))
+            U.canary('canary-regularisation-is-zero', p, af_is_real(bc['lamb'], 0))
+        bk = CAM.bind_args('anova_func', 'ANOVA_func.cores', *gk[0]) if len(gk) == 1 else None
+        okk = bk is not None and set(bk) == {'e'}
+        U.post('cores-gets-exactly-one-argument: the-accuracy', p, z3.BoolVal(okk))
+        if okk:
+            U.post('cores: the-accuracy-is-the-caller-s-e (None stays None; not lamb)', p, S.same_opt(bk['e'], e))
+            U.canary('canary-accuracy-is-never-None', p, z3.Not(S.as_opt_num(bk['e']).isnone))
+        U.post('returns-what-cores-returns', p, z3.BoolVal(o.kind == 'return' and o.value is out))
+    U.post('one-path', [], z3.BoolVal(len(res) == 1))
+
+
+# ----------------------------------------------------------------------------------------------
+# anova_func.ANOVA_func.__init__ - what the object holds after construction.
+#
+# For a batch X_trn of m >= 1 points with d coordinates, a float array y_trn and numbers a < b:
+#   * self.X_trn = poi_scale(X_trn, a, b, kind='cheb') - exactly one call, these arguments in this order, the Chebyshev kind; hence (call-site
+#     contract = what unit grid.poi_scale.cheb proves per element)  self.X_trn has the shape of X_trn and
+#         self.X_trn[s, k] = chebscale(X_trn[s, k], a, b) = clip((x - (b + a)/2) * 2/(b - a), -1, 1);
+#   * self.y_trn is a 1-D float array with the values of y_trn (np.asarray(., dtype=float) of a float array: the same values);
+#   * self.lamb = lamb, self.n = n, self.d = the number of COLUMNS of the scaled points;
+#   * self._cfs is None: nothing is cached at construction (C10 - the first read of .coeffs fits, see anova_func.ANOVA_func.coeffs.fit);
+#   * exactly these six attributes are set, the arguments are not modified, None is returned.
+# NOT covered: a / b given per mode as lists / arrays (the call-site contract of poi_scale - pointwise unit grid.poi_scale.cheb - is stated for
+# numbers), X_trn / y_trn given as lists, rounding (A-REAL).
+
+def af_call_poi_scale_pts(ex, st, args, kwargs, node):
+    """poi_scale(X, a, b, kind) for a 2-D batch X (tag 'pts') and numbers a < b, kind 'cheb' or 'uni': units grid.poi_scale.cheb / .uni (pointwise
+    tier) prove that every element of the result is the clipped affine image of the corresponding element of X; same shape.  The call is logged."""
+    bnd = CAM.bind_args('grid', 'poi_scale', args, kwargs, method=False)
+    if bnd is None or not {'X', 'a', 'b'} <= set(bnd):
+        raise M.Unsupported('poi_scale calling pattern')
+    Xv = st.deref(bnd['X'])
+    kind = bnd.get('kind', VStr('uni'))
+    kind = kind.concrete() if isinstance(kind, VStr) else None
+    if kind not in ('cheb', 'uni') or not (isinstance(Xv, VArr) and Xv.ndim == 2 and Xv.tag == 'pts' and Xv.t is not None):
+        raise M.Unsupported("poi_scale: only the call (2-D float array, a, b, kind 'cheb' / 'uni') is under this call-site contract")
+    if not (M.is_num(bnd['a']) and M.is_num(bnd['b'])):
+        raise M.Unsupported('poi_scale: the box bounds must be numbers in this contract case')
+    a, b = M.to_real(bnd['a']), M.to_real(bnd['b'])
+    ex.oblige(st, 'call-pre', 'poi_scale: a < b', a < b, node)
+    arr = ex.fresh('scaled', XF.WL)
+    img = (lambda x: XF.chebscale(x, a, b)) if kind == 'cheb' else (lambda x: CG.spec_scale(x, a, b, 'uni'))
+    st.assume(z3.ForAll([af_s, af_k], arr[af_s][af_k] == img(Xv.t[af_s][af_k]), patterns=[arr[af_s][af_k]]))
+    CAM._rec(st, 'poi_scale', dict(X=Xv, a=a, b=b, kind=kind, out=arr))
+    return XF.pts(Xv.shape[0], Xv.shape[1], arr)
+
+
+def af_is_pts(v):
+    return isinstance(v, VArr) and v.ndim == 2 and v.tag == 'pts' and v.t is not None
+
+
+@unit('anova_func.ANOVA_func.__init__', props=('C13', 'C10'))
+def af_u_init(U):
+    fn = U.func('anova_func', 'ANOVA_func.__init__')
+    st = U.state()
+    m, d, N, n = z3.Ints('m d N n')
+    a, b, lamb = z3.Reals('a b lamb')
+    Xt, y = z3.Const('X', XF.WL), z3.Const('y', af_RA)
+    X_trn, y_trn = XF.pts(m, d, Xt), V.RVec(N, y)
+    selfrec = st.alloc(VRec({}))
+    ex = U.executor(fn, callees={'grid.poi_scale': af_call_poi_scale_pts})
+    ex.anova = ex.functt = ex.rest_af = True
+    st.vars.update(self=selfrec, X_trn=X_trn, y_trn=y_trn, n=n, a=a, b=b, lamb=lamb)
+    res = U.run(ex, st, pre=[m >= 1, d >= 1, N >= 0, a < b])
+    U.assumed.append('grid.poi_scale (unit grid.poi_scale.cheb)')
+    U.cover('precondition-satisfiable', U.pre)
+    s0, k0 = z3.Ints('s0 k0')
+    for p, o in res:
+        if o.kind != 'return':
+            U.post('no-exception', p, False)
+            continue
+        f = p.deref(selfrec).fields
+        U.post('returns-None', p, z3.BoolVal(o.value is NONE))
+        U.post('exactly-the-attributes-X_trn-y_trn-lamb-_cfs-d-n-are-set', p, z3.BoolVal(set(f) == {'X_trn', 'y_trn', 'lamb', '_cfs', 'd', 'n'}))
+        calls = p.ghost.get('poi_scale', [])
+        okp = len(calls) == 1 and af_is_pts(f.get('X_trn')) and f['X_trn'].t is calls[0]['out']
+        U.post('the-stored-points-are-the-result-of-exactly-one-call-of-poi_scale', p, z3.BoolVal(okp))
+        if okp:
+            c, Xs = calls[0], f['X_trn']
+            U.post('poi_scale-gets-the-sample-points-and-the-box-(a, b)-in-this-order', p, z3.And(z3.BoolVal(c['X'] is X_trn), c['a'] == a, c['b'] == b))
+            U.post('poi_scale-is-called-with-the-Chebyshev-kind', p, z3.BoolVal(c['kind'] == 'cheb'))
+            U.post('scaled-points-have-the-shape-of-the-sample-points', p, z3.And(Z(Xs.shape[0]) == m, Z(Xs.shape[1]) == d))
+            if c['kind'] == 'cheb':
+                U.post('scaled-point[s, k]-is-the-Chebyshev-scaling-of-X_trn[s, k]-for-the-box-(a, b)', p, Xs.t[s0][k0] == XF.chebscale(Xt[s0][k0], a, b))
+                U.post('that-scaling-is-the-clipped-affine-map-of-[a, b]-onto-[-1, 1]', p,
+                       Xs.t[s0][k0] == CG.spec_scale(Xt[s0][k0], a, b, 'cheb'), axioms=T.axioms('chebscale'))
+                U.canary('canary-points-are-stored-unscaled', p, Xs.t[s0][k0] == Xt[s0][k0], axioms=T.axioms('chebscale'))
+        yv = f.get('y_trn')
+        oky = XF.is_vec(yv, 'rvec') and yv.dtype == 'f'
+        U.post('values-are-stored-as-a-1-D-float-array', p, z3.BoolVal(oky))
+        if oky:
+            U.post('stored-values-are-the-values-of-y_trn (same length, same entries)', p, z3.And(Z(yv.shape[0]) == N, yv.t[s0] == y[s0]))
+        U.post('regularisation-parameter-is-stored', p, af_is_real(f.get('lamb'), lamb))
+        U.canary('canary-regularisation-is-one', p, af_is_real(f.get('lamb'), 1))
+        U.post('nothing-is-cached-at-construction: _cfs-is-None', p, z3.BoolVal(f.get('_cfs', 0) is NONE))
+        U.post('d-is-the-number-of-COLUMNS-of-the-scaled-points', p, Z(f['d']) == d if M.is_intsort(f.get('d')) else z3.BoolVal(False))
+        U.canary('canary-d-is-the-number-of-samples', p, Z(f['d']) == m if M.is_intsort(f.get('d')) else z3.BoolVal(False))
+        U.post('mode-size-n-is-stored', p, Z(f['n']) == n if M.is_intsort(f.get('n')) else z3.BoolVal(False))
+        U.post('arguments-untouched', p, z3.BoolVal(p.vars.get('X_trn') is X_trn and p.vars.get('y_trn') is y_trn and X_trn.t is Xt and y_trn.t is y))
+    U.post('one-path', [], z3.BoolVal(len(res) == 1))
+
+
+# ----------------------------------------------------------------------------------------------
+# anova_func.ANOVA_func.coeffs (cached property) - control level with element-level bookkeeping; the VALUE of every least-squares solution stays
+# the uninterpreted term rest_af_lsqv(H, rhs) = scipy.linalg.lstsq(H, rhs)[0]  ("values left to the bounded suite").
+#
+# The object is what __init__ leaves (unit anova_func.ANOVA_func.__init__): X_trn = the m x d batch Xs of scaled points, y_trn = the float vector
+# y of length N, lamb, n, d, and the cache _cfs.
+#
+#   .cached (C10)   _cfs is already set: that very list object is returned, unchanged; nothing is recomputed (no mean, no basis matrix, no
+#                   least-squares call) and no attribute is touched.
+#   .fit  (C13, C09)   _cfs is None.  With the spec terms (k = a dimension, i.e. a COLUMN of the scaled points)
+#           y0    = rmean(y, N)                                            the sample mean of the training values
+#           yc[s] = y[s] - y0                                              the values centred by that ORIGINAL mean (not by the running cfs[0])
+#           B_k   = chebmat(column k of Xs, m, n)                          the n x m matrix T_i(Xs[s, k]) = func_basis(xd, m=n, kind='cheb') (call-site
+#                                                                          contract: unit func.func_basis; kind must be 'cheb', else NotImplementedError)
+#           A_k   = B_k^T                                                  m x n,   A_k[s, i] = T_i(Xs[s, k])
+#           H_k   = A_k^T A_k + lamb * I_n                                 normal equations plus self.lamb times the identity of size n = A_k.shape[1]
+#           rhs_k = A_k^T yc                                               (2-D @ 1-D: rest_af_mv with its defining finite sum)
+#           sol_k = rest_af_lsqv(H_k, rhs_k)                               ONE ridge fit per dimension, each on the basis matrix of ITS OWN column
+#         the unit proves: the result is a list of length d + 1 (a number followed by d float vectors - exactly what the unit
+#         anova_more.ANOVA_func.cores assumes about `self.coeffs`: CfsList(number, list of d vectors of length n - 1));
+#           cfs[k + 1] = sol_k[1:]   (length n - 1, entry q = sol_k[q + 1])      for every dimension k,
+#           cfs[0]     = y0 + sum_{k<d} sol_k[0]                                 (the constant-term handling: every fit adds its leading entry),
+#         the result is stored in self._cfs and that same object is returned; the other attributes and the data are untouched;
+#         scipy.linalg.lstsq is called with parameter names it has, lapack_driver='gelsy', cond left at its default, once per dimension;
+#         overwrite_a / overwrite_b = True act on temporaries only (C09): operand a is the value of the expression `AtA + ...` written in the
+#         call (a new array), operand b is the result of the `@` of the same iteration (a new array), held by one local name that is not read
+#         again after the call, not an attribute / container element - so no array of the object or of the caller can be destroyed.
+#         (Syntactic / identity check in the value model of ttvc; byte-level aliasing is the business of frames/.)
+#   Preconditions of .fit: m >= 1 points, N = m values (one per point: otherwise `A.T @ y` raises), n >= 1.
+#   The spec arrays YC / SOL are DEFINED in the precondition by yc / sol_k above (fresh symbols, a conservative definitional extension).
+# NOT covered: the value of rest_af_lsqv (that sol_k minimises |A_k c - yc|^2 + lamb |c|^2: bounded suite C13), rounding (A-REAL), lists for X_trn / y_trn.
+
+def af_call_func_basis(ex, st, args, kwargs, node):
+    """func_basis(x, m, kind='cheb') for a 1-D float array x: unit func.func_basis proves (m >= 1, x non-empty) that the result is the m x len(x)
+    matrix with the entries T_i(x_j) - the matrix rest_af_chebmat(x, len x, m) (group 'rest_af_chebmat').  Any other kind raises
+    NotImplementedError in func_basis: obliged.  The call is logged."""
+    bnd = CAM.bind_args('func', 'func_basis', args, kwargs, method=False)
+    if bnd is None or 'X' not in bnd or 'ones_func' in bnd:
+        raise M.Unsupported('func_basis calling pattern')
+    xv = st.deref(bnd['X'])
+    if not XF.is_vec(xv, 'rvec'):
+        raise M.Unsupported('func_basis: only a 1-D float array of points is under this call-site contract')
+    mm_ = ex.need_num(st, bnd.get('m', 10), node)
+    if not M.is_intsort(mm_):
+        raise M.Unsupported('func_basis: non-integer number of basis functions')
+    kind = bnd.get('kind', VStr('cheb'))
+    if not isinstance(kind, VStr):
+        raise M.Unsupported('func_basis: kind is not a string')
+    ex.oblige(st, 'call-pre', "func_basis: the kind is 'cheb' (NotImplementedError otherwise)", kind.code == VStr('cheb').code, node)
+    L = Z(xv.shape[0])
+    ex.oblige(st, 'call-pre', 'func_basis: at least one basis function and one point', z3.And(Z(mm_) >= 1, L >= 1), node)
+    M.used('teneva.func_basis(x, m) -> rest_af_chebmat(x, len x, m): the m x len(x) matrix of T_i(x_j) (contract proved by unit func.func_basis)')
+    Tm = XAF.af_chebmat(xv.t, L, Z(mm_))
+    CAM._rec(st, 'func_basis', dict(x=xv, m=mm_, T=Tm))
+    return M.mk_mat(Tm)
+
+
+def af_reads_after(fn, call_node, name):
+    """is the local `name` read again, after the statement that contains `call_node`, in the loop body that contains that statement?"""
+    for loop in ast.walk(fn.node):
+        if isinstance(loop, (ast.For, ast.While)):
+            for pos, stmt in enumerate(loop.body):
+                if any(x is call_node for x in ast.walk(stmt)):
+                    later = ast.Module(body=loop.body[pos + 1:], type_ignores=[])
+                    return any(isinstance(x, ast.Name) and x.id == name and isinstance(x.ctx, ast.Load) for x in ast.walk(later))
+    return True          # not inside a loop body: nothing is claimed
+
+
+def af_lstsq_call_ok(fn, s, c):
+    """the control-level statements about one logged scipy.linalg.lstsq call (list of (what, bool))"""
+    bound, nodes = c['bound'], c['nodes']
+    drv = bound.get('lapack_driver')
+    rec = s.deref(s.vars['self'])
+    b = c['b']
+    names_b = [k for k, v in s.vars.items() if v is b]
+    ow_a, ow_b = bound.get('overwrite_a', False), bound.get('overwrite_b', False)
+    a_temp = isinstance(nodes.get('a'), ast.BinOp)                       # the value of an arithmetic expression written in the call: a new array
+    b_temp = (getattr(b, 'af_fresh', None) is not None and not getattr(b, 'shared', False) and len(names_b) == 1
+              and not any(v is b for v in rec.fields.values()) and isinstance(nodes.get('b'), ast.Name) and nodes['b'].id == names_b[0]
+              and not af_reads_after(fn, nodes['b'], names_b[0]))
+    return [('driver-is-gelsy', isinstance(drv, VStr) and drv.concrete() == 'gelsy'),
+            ('cond-and-check_finite-stay-at-their-defaults', 'cond' not in bound and 'check_finite' not in bound),
+            ('overwrite-flags-are-literal-booleans', isinstance(ow_a, bool) and isinstance(ow_b, bool)),
+            ('overwrite_a-only-on-a-temporary', ow_a is False or a_temp),
+            ('overwrite_b-only-on-a-temporary-that-is-not-read-again', ow_b is False or b_temp)]
+
+
+def af_coeffs_unit(U, cached):
+    fn = U.func('anova_func', 'ANOVA_func.coeffs')
+    CAM.expect_for_loops(fn, 1)
+    st = U.state()
+    m, d, N, n = z3.Ints('m d N n')
+    lamb = z3.Real('lamb')
+    Xs, y = z3.Const('Xs', XF.WL), z3.Const('y', af_RA)
+    YC, SOL = z3.Const('rest_af_yc', af_RA), z3.Const('rest_af_sol', af_RAA)
+    Xv, yv = XF.pts(m, d, Xs), V.RVec(N, y)
+    y0 = XAN.rmean(y, N)
+    if cached:
+        c0 = z3.Real('c0')
+        C, dl = z3.Const('cf', af_IA), z3.Int('ncf')
+        old_tail = st.alloc(XAF.af_tail_seq(C, dl))
+        old = st.alloc(XAN.CfsList(c0, old_tail))
+    fields = {'X_trn': Xv, 'y_trn': yv, 'lamb': lamb, 'n': n, 'd': d, '_cfs': old if cached else NONE}
+    selfrec = st.alloc(VRec(fields))
+
+    B_ = lambda k: XAF.af_chebmat(XF.pcol(Xs, k), m, n)
+    A_ = lambda k: T.tr(B_(k))
+    H_ = lambda k: T.madd(T.mm(T.tr(A_(k)), A_(k)), T.smul(lamb, T.eye(n)))
+    rhs_ = lambda k: XAF.af_mv(T.tr(A_(k)), YC)
+    sol_ = lambda k: XAF.af_lsqv(H_(k), rhs_(k))
+    spec_defs = [z3.ForAll([af_s], YC[af_s] == y[af_s] - y0, patterns=[YC[af_s]]),
+                 z3.ForAll([af_k], SOL[af_k] == sol_(af_k), patterns=[SOL[af_k]])]
+
+    def the_list(s):
+        loc = s.vars.get('cfs')
+        o = s.deref(loc) if isinstance(loc, VRef) else None
+        if not (isinstance(o, XAF.af_Cfs) and o.head is not None):
+            raise M.ContractMismatch('coeffs: `cfs` is not the coefficient list that starts with a number')
+        tail = s.deref(o.tail_ref)
+        if not (isinstance(tail, VSeq) and tail.tag == 'rvecs'):
+            raise M.ContractMismatch('coeffs: the coefficient list does not hold float vectors after its leading number')
+        ref = s.deref(s.vars['self']).fields.get('_cfs')
+        return o, tail, isinstance(ref, VRef) and ref.oid == loc.oid
+
+    def vectors_ok(tail, upto):
+        c = tail.arr[af_k]
+        return [z3.ForAll([af_k], z3.Implies(z3.And(0 <= af_k, af_k < upto), XAF.af_clen(c) == n - 1), patterns=[tail.arr[af_k]]),
+                z3.ForAll([af_k, af_q], z3.Implies(z3.And(0 <= af_k, af_k < upto), XAF.af_cvec(c)[af_q] == SOL[af_k][af_q + 1]),
+                          patterns=[XAF.af_cvec(c)[af_q]])]
+
+    def inv(ex, s, j):
+        o, tail, stored = the_list(s)
+        yl = s.vars.get('y')
+        if not XF.is_vec(yl, 'rvec'):
+            raise M.ContractMismatch('coeffs: y is not the vector of the centred values')
+        calls = s.ghost.get('af_lstsq', [])
+        v1, v2 = vectors_ok(tail, j)
+        return [('the-list-that-is-built-is-the-one-stored-in-self._cfs', z3.BoolVal(stored)),
+                ('one-coefficient-vector-per-processed-dimension', tail.n == j),
+                ('coefficient-vector-k-has-n-1-entries', v1),
+                ('coefficient-vector-k-is-the-ridge-solution-of-dimension-k-without-its-leading-entry', v2),
+                ('constant-term-is-the-mean-plus-the-leading-entries-of-the-processed-solutions', o.head == y0 + XAF.af_hsum(SOL, j)),
+                ('right-hand-sides-use-the-values-centred-by-the-ORIGINAL-mean', z3.And(yl.t == YC, Z(yl.shape[0]) == N))] + \
+               [('lstsq: ' + what, z3.BoolVal(all(dict(af_lstsq_call_ok(fn, s, c))[what] for c in calls)))
+                for what in ('driver-is-gelsy', 'cond-and-check_finite-stay-at-their-defaults', 'overwrite-flags-are-literal-booleans',
+                             'overwrite_a-only-on-a-temporary', 'overwrite_b-only-on-a-temporary-that-is-not-read-again')] + \
+               [('one-least-squares-fit-and-one-basis-matrix-per-dimension',
+                 z3.BoolVal(len(calls) == len(s.ghost.get('func_basis', [])) and len(calls) == (0 if s.ghost.get('af_in_body') is None else 1)))]
+
+    def hook(ex, h, pre_, j):
+        h.ghost['af_lstsq'], h.ghost['func_basis'] = [], []          # the logs count the calls of ONE iteration
+        h.ghost['af_in_body'] = None
+
+    def body_end(ex, s1, o1, j):
+        s1.ghost['af_in_body'] = True
+        U.canary('canary-context-at-the-end-of-the-loop-body', list(s1.pc), False, axioms=AX)
+
+    AX = T.axioms('shape', 'mrow', 'entsub', 'rest_af_hsum', 'rest_af_chebmat', 'rest_af_maddcomm')
+    ex = U.executor(fn, loops={0: {'inv': inv, 'havoc_hook': hook, 'body_end': body_end}}, axioms=AX,
+                    callees={'np.mean': XAN.np_mean, 'func.func_basis': af_call_func_basis, 'sp.linalg.lstsq': XAF.af_lstsq_vec,
+                             'scipy.linalg.lstsq': XAF.af_lstsq_vec},
+                    type_hints={'cfs': XAF.af_cfs_kind, 'self._cfs': XAF.af_cfs_kind})
+    ex.anova = ex.functt = ex.rest_af = True
+    ex.mode = 'ematch'
+    st.vars.update(self=selfrec)
+    pre = [m >= 1, N == m, n >= 1, d >= 0] + spec_defs + ([dl >= 0] if cached else [])
+    res = U.run(ex, st, pre=pre)
+    U.assumed += ['func.func_basis (unit func.func_basis)']
+    U.cover('precondition-satisfiable', U.pre + [d >= 2, n >= 2], axioms=AX)
+    kk, qq, ss, ii = z3.Ints('kk qq ss ii')
+    for p, o in res:
+        f = p.deref(selfrec).fields
+        same_data = all(f.get(k) is v for k, v in fields.items() if k != '_cfs') and set(f) == set(fields) and Xv.t is Xs and yv.t is y
+        if cached:
+            U.post('returns-the-cached-list-object-itself', p, z3.BoolVal(o.kind == 'return' and isinstance(o.value, VRef) and o.value.oid == old.oid
+                                                                          and f.get('_cfs') is old))
+            ob, tl = p.heap[old.oid], p.heap[old_tail.oid]
+            U.post('the-cached-list-is-unchanged', p, z3.BoolVal(type(ob) is XAN.CfsList and ob.head is c0 and ob.tail_ref is old_tail and tl.arr is C and tl.n is dl))
+            U.post('nothing-is-recomputed: no-mean-no-basis-matrix-no-least-squares-call', p,
+                   z3.BoolVal(not p.ghost.get('af_lstsq') and not p.ghost.get('func_basis') and 'y0' not in p.vars and 'cfs' not in p.vars))
+            U.post('object-untouched', p, z3.BoolVal(same_data))
+            continue
+        if o.kind != 'return':
+            U.post('no-exception', p, False, axioms=AX, mode='ematch')
+            continue
+        okr = isinstance(o.value, VRef) and isinstance(f.get('_cfs'), VRef) and o.value.oid == f['_cfs'].oid and isinstance(p.deref(o.value), XAF.af_Cfs) \
+            and p.deref(o.value).head is not None and isinstance(p.deref(p.deref(o.value).tail_ref), VSeq) and p.deref(p.deref(o.value).tail_ref).tag == 'rvecs'
+        U.post('returns-the-list-that-is-stored-in-self._cfs: a-number-followed-by-float-vectors (the kind anova_more.ANOVA_func.cores consumes)', p,
+               z3.BoolVal(okr and isinstance(p.deref(o.value), XAN.CfsList)))
+        if not okr:
+            continue
+        lst = p.deref(o.value)
+        tail = p.deref(lst.tail_ref)
+        hyp, dom = list(p.pc), [0 <= kk, kk < d]
+        cvec, clen = XAF.af_cvec(tail.arr[kk]), XAF.af_clen(tail.arr[kk])
+        U.post('the-list-has-length-d+1: the-constant-term-and-one-vector-per-dimension', hyp, tail.n == d, axioms=AX, mode='ematch')
+        U.post('coefficient-vector-of-dimension-k-has-n-1-entries (what anova_more.ANOVA_func.cores assumes)', hyp + dom, clen == n - 1, axioms=AX, mode='ematch')
+        U.post('cfs[k+1][q]-is-entry-q+1-of-lstsq(A_k^T A_k + lamb I_n, A_k^T (y - mean))[0]-for-the-basis-matrix-A_k-of-column-k', hyp + dom,
+               cvec[qq] == sol_(kk)[qq + 1], axioms=AX, mode='ematch')
+        U.post('cfs[0]-is-the-sample-mean-plus-the-leading-entries-of-all-d-solutions', hyp, lst.head == y0 + XAF.af_hsum(SOL, d), axioms=AX, mode='ematch')
+        U.post('the-summed-leading-entry-of-dimension-k-is-that-of-the-same-ridge-solution', hyp + dom, SOL[kk][0] == sol_(kk)[0], axioms=AX, mode='ematch')
+        U.post('basis-matrix-A_k-is-m-x-n-with-A_k[s, i] = T_i(scaled point[s, k])', hyp + dom + [0 <= ss, ss < m, 0 <= ii, ii < n],
+               z3.And(T.rows(A_(kk)) == m, T.cols(A_(kk)) == n, T.ent(A_(kk), ss, ii) == XF.cheb(ii, Xs[ss][kk])), axioms=AX, mode='ematch')
+        U.post('normal-equations-are-n-x-n', hyp + dom, z3.And(T.rows(H_(kk)) == n, T.cols(H_(kk)) == n), axioms=AX, mode='ematch')
+        U.post('right-hand-side-entry-i-is-the-finite-sum-over-the-samples-of-A_k[s, i] * (y[s] - mean)', hyp + dom + [0 <= ii, ii < n],
+               z3.And(rhs_(kk)[ii] == XAF.af_mvsum(T.tr(A_(kk)), YC, ii, m), YC[ss] == y[ss] - y0), axioms=AX + T.axioms('rest_af_mv'), mode='ematch')
+        U.post('object-and-data-untouched-apart-from-the-cache', p, z3.BoolVal(same_data))
+        U.canary('canary-no-coefficient-vectors', hyp, tail.n == 0, axioms=AX)
+        U.canary('canary-constant-term-is-the-mean-alone', hyp + [d >= 1], lst.head == y0, axioms=AX)
+        U.canary('canary-coefficient-vector-keeps-the-leading-entry', hyp + dom, cvec[qq] == sol_(kk)[qq], axioms=AX)
+        U.canary('canary-every-dimension-is-fitted-on-the-basis-matrix-of-column-0', hyp + dom, cvec[qq] == sol_(z3.IntVal(0))[qq + 1], axioms=AX)
+    U.post('one-path', [], z3.BoolVal(len(res) == 1))
+
+
+@unit('anova_func.ANOVA_func.coeffs.fit', props=('C13', 'C09'))
+def af_u_coeffs_fit(U):
+    af_coeffs_unit(U, False)
+
+
+@unit('anova_func.ANOVA_func.coeffs.cached', props=('C13', 'C10'))
+def af_u_coeffs_cached(U):
+    af_coeffs_unit(U, True)
+
+
+# ----------------------------------------------------------------------------------------------
+# Hand-made mutants (MUT_BASE=/tmp/base tools/mut.sh anova_func.py '<sed>' <unit>) and the named obligation that reports each.
+# W = `ANOVA_func(X_trn, y_trn, n, a, b, lamb).cores(e)`, P = `poi_scale(X_trn, a, b, kind='cheb')`.
+#
+# anova_func.anova_func
+#   W -> ANOVA_func(X_trn, y_trn, n, b, a, lamb).cores(e)                  post constructor: lower-bound-a-and-upper-bound-b-at-their-own-parameters (not swapped)
+#   W -> ANOVA_func(X_trn, y_trn, n, a, b, e).cores(lamb)                  post constructor: the-regularisation-parameter-is-lamb (not the accuracy e), cores: the-accuracy-is-the-caller-s-e .. (refuted)
+#   W -> ANOVA_func(X_trn, y_trn, n, a, b).cores(e)                        post constructor-gets-exactly-(X_trn, y_trn, n, a, b, lamb)
+#   W -> ANOVA_func(X_trn, y_trn, n, a, b, lamb).cores()                   post cores-gets-exactly-one-argument: the-accuracy
+#   W -> ANOVA_func(y_trn, X_trn, n, a, b, lamb).cores(e)                  post constructor: the-samples-and-the-values-at-their-own-parameters
+#   quiet (equivalent): ANOVA_func(X_trn, y_trn, n=n, lamb=lamb, b=b, a=a).cores(e=e); undecided: `.coeffs` for `.cores(e)` (Unsupported: attribute outside the contract case)
+# anova_func.ANOVA_func.__init__
+#   P -> poi_scale(X_trn, a, b, kind='uni')  /  poi_scale(X_trn, a, b)     post poi_scale-is-called-with-the-Chebyshev-kind (refuted)
+#   P -> poi_scale(X_trn, b, a, kind='cheb')                               call-pre poi_scale: a < b (refuted)
+#   P -> poi_scale(X_trn, -1., 1., kind='cheb')                            post poi_scale-gets-the-sample-points-and-the-box-(a, b)-in-this-order, scaled-point[s, k]-is-the-Chebyshev-scaling-..
+#   s/self.X_trn = teneva.poi_scale(..)/self.X_trn = X_trn/                post the-stored-points-are-the-result-of-exactly-one-call-of-poi_scale
+#   s/self._cfs = None/self._cfs = []/                                     post nothing-is-cached-at-construction: _cfs-is-None
+#   s/        self._cfs = None/        pass/                               post exactly-the-attributes-X_trn-y_trn-lamb-_cfs-d-n-are-set, nothing-is-cached-at-construction: ..
+#   s/self.lamb = lamb/self.lamb = 1./                                     post regularisation-parameter-is-stored (refuted)
+#   s/self.d = self.X_trn.shape\[1\]/self.d = self.X_trn.shape[0]/         post d-is-the-number-of-COLUMNS-of-the-scaled-points (refuted)
+#   s/self.n = n$/self.n = self.d/                                         post mode-size-n-is-stored (refuted)
+#   s/np.asarray(y_trn, dtype=float)/np.asarray(X_trn, dtype=float)/       post values-are-stored-as-a-1-D-float-array
+#   .. /np.asarray(y_trn, dtype=float)[1:]/  and  /.. * 2/                 post stored-values-are-the-values-of-y_trn (same length, same entries) (refuted)
+#   quiet (equivalent): poi_scale(X=X_trn, b=b, a=a, kind='cheb'), np.array(y_trn, dtype=float)
+# anova_func.ANOVA_func.coeffs.fit     (IK = inv-keep loop0., II = inv-init loop0.; S = ..coefficient-vector-k-is-the-ridge-solution-of-dimension-k-without-its-leading-entry,
+#                                       C = ..constant-term-is-the-mean-plus-the-leading-entries-of-the-processed-solutions)
+#   s/AtA + self.lamb \* np.identity/AtA + 1. * np.identity/               IK S, IK C
+#   s/lstsq(AtA + self.lamb \* np.identity(A.shape\[1\]),/lstsq(AtA,/      IK S, IK C, IK lstsq: overwrite_a-only-on-a-temporary
+#   s/y = self.y_trn - y0/y = self.y_trn/                                  II right-hand-sides-use-the-values-centred-by-the-ORIGINAL-mean
+#   s/Aty = A.T @ y$/Aty = A.T @ self.y_trn/                               IK S, IK C
+#   s/cfs.append(cur_cf\[1:\])/cfs.append(cur_cf)/                         IK coefficient-vector-k-has-n-1-entries, IK S
+#   delete `cfs[0] += cur_cf[0]`                                           IK C
+#   s/cfs\[0\] += cur_cf\[0\]/cfs[0] += cur_cf[1]/                         safety array-index-in-range (n = 1), IK C
+#   s/cfs.append(y0)/cfs.append(0.)/                                       II C
+#   s/m=self.n, kind/m=self.n+1, kind/                                     IK coefficient-vector-k-has-n-1-entries, IK S, IK C
+#   s/m=self.n, kind='cheb'/m=self.n, kind='sin'/                          call-pre func_basis: the kind is 'cheb' (NotImplementedError otherwise)
+#   s/for xd in self.X_trn.T:/for xd in self.X_trn:/   (rows for columns)  IK S, IK C, post the-list-has-length-d+1: .., cfs[k+1][q]-is-entry-q+1-of-lstsq(..)
+#   s/np.identity(A.shape\[1\])/np.identity(A.shape[0])/                   call-pre elementwise-shapes-agree
+#   s/AtA = A.T @ A$/AtA = A @ A.T/                                        call-pre elementwise-shapes-agree, IK S, IK C
+#   s/overwrite_a=True/overwrite_A=True/                                   call-pre scipy.linalg.lstsq-has-a-parameter-named-overwrite_A
+#   s/lapack_driver='gelsy'/lapack_driver='gelsd'/                         IK lstsq: driver-is-gelsy
+#   s/Aty, overwrite_a=True/y, overwrite_a=True/                           call-pre lstsq-row-counts-agree, IK S, IK C, IK lstsq: overwrite_b-only-on-a-temporary-that-is-not-read-again
+#   `Aty[0] = 0.` appended to the loop body (the destroyed buffer is used again)     IK lstsq: overwrite_b-only-on-a-temporary-that-is-not-read-again
+#   s/self._cfs = cfs = \[\]/cfs = []/   (never cached)  and  /self._cfs = []; cfs = []/      II the-list-that-is-built-is-the-one-stored-in-self._cfs
+#   s/if self._cfs is not None:/if self._cfs is None:/                     post returns-the-list-that-is-stored-in-self._cfs: .. (refuted)
+#   s/        return self._cfs$/        return cfs[1:]/                    post returns-the-list-that-is-stored-in-self._cfs: .. (refuted)
+#   quiet (equivalent): `y = self.y_trn - cfs[0]` before the loop, `cfs = []; self._cfs = cfs`, `cfs[0] = cfs[0] + cur_cf[0]`, cur_cf renamed,
+#   func_basis(xd, self.n), `self.lamb * np.identity(..) + AtA`, `np.identity(..) * self.lamb`, np.identity(self.n), np.eye(AtA.shape[0]), keywords of lstsq reordered;
+#   undecided: `Aty = y @ A` (Unsupported: no denotation), A.T.dot(A) (Unsupported), y renamed (ContractMismatch), a while loop (ContractMismatch)
+# anova_func.ANOVA_func.coeffs.cached
+#   s/if self._cfs is not None:/if self._cfs is None:/                     post returns-the-cached-list-object-itself, nothing-is-recomputed: .. (refuted)
+#   `self._cfs = None` inserted before the test (cache always dropped)     post returns-the-cached-list-object-itself, nothing-is-recomputed: .. (refuted)
+#   first `return self._cfs` -> return self._cfs[1:] / return None / pass  post returns-the-cached-list-object-itself (refuted)
+#   quiet (equivalent): `if not (self._cfs is None):`; undecided: return list(self._cfs) (Unsupported)
+
+
+# ==================================================================================================
+# SECTION ANOVA.build_2
+# ==================================================================================================
+"""Sidecar contract for ANOVA.build_2 of teneva/anova.py (C13: conditional means per pair of modes; C10: the cache of masks is per call).
+
+Data as in contracts/anova_more.py: I_trn is the (N x d) integer matrix with columns ICOL[k], y_trn the real vector y of length N;
+self.domain is the list of d integer vectors dmv(k) = DARR(DC[k]) of lengths dml(k) = DLEN(DC[k]) (the coded list of ANOVA.build, unit
+anova_more.ANOVA.build), self.f0 a real, self.f1 the list of d first-order tables F1[k] with key sets DOM1[k] (unit anova_more.ANOVA.build_1).
+Spec symbols ccnt2 / csum2 / cmean2 / tri / pos: ttvc/mx_rest.py.
+
+unit anova.ANOVA.build_2 - the real four-loop nest with symbolic d, N and domains.  Proved, for every d >= 1:
+  * self.f2 is assigned a NEW list (whatever self.f2 was before - here an arbitrary list of pair tables - is dropped) of d(d-1)/2 tables;
+  * storage order: the table of the pair of modes k1 < k2 sits at position  pos(d, k1, k2) = tri(d, k1) + k2 - k1 - 1,  and this is the
+    position pair_num_to_num(k1, k2) returns (2 pos = k1 (2d - 3 - k1) + 2 (k2 - 1), the statement of unit anova.ANOVA.pair_num_to_num;
+    derived from the closed form 2 tri(d, a) = a (2d - 1 - a), itself proved by induction);
+  * that table has every pair (x1 in domain[k1], x2 in domain[k2]) as a key, every key (x1, x2) consists of observed values of the two
+    modes, and
+        f2[pos][x1, x2] = 0                                                   if no sample carries the pair (ccnt2(..) = 0),
+                        = cmean2(y, ICOL[k1], x1, ICOL[k2], x2, N) - f0 - f1[k1][x1] - f1[k2][x2]       otherwise
+    (cmean2 = the mean of y over the samples s with I[s, k1] = x1 and I[s, k2] = x2; its defining equation mean * count = sum is a
+    separate quantifier-free obligation);
+  * C10 / the cache of masks: `cache` is a dict created empty inside the call (a fresh heap object; nothing is read from or written to
+    the object or an argument), it is keyed by PAIRS (mode, value) only, and whatever is stored under (k, x) is the mask
+    I_trn[:, k] == x of full length N (loop invariant `cached-masks-are-the-masks-of-their-(mode, value)-keys`: a cache keyed by the
+    value alone or by the wrong mode breaks it);
+  * f0 / f1 / domain / I_trn / y_trn are not modified, no other attribute is written, the result is None, no exception (KeyError of
+    the f1 lookups and the empty-mean case are excluded by proved obligations).
+Preconditions (class invariants established by ANOVA.build / build_1, see the units named above): N >= 1, every point of domain[k]
+occurs in column k and is a key of f1[k].
+NOT covered: floating-point rounding of the means (A-REAL); np.unique-sortedness of the domain is not needed and not used.
+"""
+import z3
+from ttvc.units import unit
+from ttvc.symex import VRec, VSeq, VRef, NONE, Z
+from ttvc import models as M, theory as T
+from ttvc import mx_anova as XAN
+from ttvc import mx_rest as XB2
+from contracts import anova as CA, anova_more as CAM
+
+b2_AX = T.axioms('rest_b2_csum2', 'rest_b2_sym', 'rest_b2_tri')
+
+
+def b2_value(y, ICOL, N, f0, F1, a, x1, b, x2):
+    """the entry of the pair table of the modes (a, b) at the pair of values (x1, x2)"""
+    return z3.If(XB2.b2_ccnt2(ICOL[a], x1, ICOL[b], x2, N) == 0, z3.RealVal(0),
+                 XB2.b2_cmean2(y, ICOL[a], x1, ICOL[b], x2, N) - f0 - F1[a][x1] - F1[b][x2])
+
+
+def b2_tab_facts(dom, val, a, b, dmv, dml, y, ICOL, N, f0, F1, t1, t2, x1, x2):
+    """(keys, values) of `the dict (dom, val) is the pair table of the modes (a, b)`, open in t1, t2 / x1, x2"""
+    keys = z3.Implies(z3.And(0 <= t1, t1 < dml(a), 0 <= t2, t2 < dml(b)), dom[dmv(a)[t1]][dmv(b)[t2]])
+    vals = z3.Implies(dom[x1][x2], z3.And(XAN.ccnt(ICOL[a], x1, N) >= 1, XAN.ccnt(ICOL[b], x2, N) >= 1,
+                                          val[x1][x2] == b2_value(y, ICOL, N, f0, F1, a, x1, b, x2)))
+    return keys, vals
+
+
+@unit('anova.ANOVA.build_2', props=('C13', 'C10'))
+def b2_u_build_2(U):
+    fn = U.func('anova', 'ANOVA.build_2')
+    CAM.expect_for_loops(fn, 4)
+    st = U.state()
+    N, d, nold = z3.Ints('N d nold')
+    f0 = z3.Real('f0')
+    I_trn, ICOL, y_trn, y = CAM._data(st, N, d)
+    DC = z3.Const('domain', XAN.IA)
+    dmv, dml = (lambda k: XAN.DARR(DC[k])), (lambda k: XAN.DLEN(DC[k]))
+    domref = XAN.ivec_seq(None, st, DC, d)
+    F1, DOM1 = z3.Const('f1', XAN.RAA), z3.Const('dom1', CAM.BAA)
+    f1ref = CAM._f1_tables(st, F1, DOM1, d)
+    oldf2 = XB2.b2_pair_table_seq(None, st, z3.Const('f2old', XAN.IA), nold)
+    fields0 = {'domain': domref, 'f0': f0, 'f1': f1ref, 'f2': oldf2}
+    selfrec = st.alloc(VRec(fields0))
+    heap0 = set(st.heap)
+    aq, bq, t1q, t2q, x1q, x2q, arq, kq, tq, mq = z3.Ints('a!q b!q t1!q t2!q x1!q x2!q ar!q k!q t!q m!q')
+    pos = lambda a, b: XB2.b2_pos(d, a, b)
+    e1, e2 = (lambda m: XB2.b2_e1(d, m)), (lambda m: XB2.b2_e2(d, m))
+
+    def facts(dom, val, a, b, t1=t1q, t2=t2q, x1=x1q, x2=x2q):
+        return b2_tab_facts(dom, val, a, b, dmv, dml, y, ICOL, N, f0, F1, t1, t2, x1, x2)
+
+    def f2_of(s):
+        ref = s.deref(s.vars['self']).fields.get('f2')
+        o = s.deref(ref) if isinstance(ref, VRef) else None
+        if not (isinstance(o, VSeq) and o.tag == 'tables2'):
+            raise M.ContractMismatch('self.f2 is not the list of pair tables')
+        return o
+
+    def cache_of(s):
+        c = s.deref(s.vars.get('cache'))
+        if not isinstance(c, XB2.b2_MaskCache):
+            raise M.ContractMismatch('cache is not the dict of masks')
+        return c
+
+    def cur_of(s):
+        c = s.deref(s.vars.get('f2_curr'))
+        if not isinstance(c, XB2.b2_PairTab):
+            raise M.ContractMismatch('f2_curr is not a dict from pairs of indices to reals')
+        return c
+
+    def mode(s, name):
+        v = s.vars.get(name)
+        if not M.is_intsort(v):
+            raise M.ContractMismatch(f'{name} is not an integer')
+        return Z(v)
+
+    def cache_ok(c):
+        h = c.has[arq][aq][bq]
+        return ('cached-masks-are-the-masks-of-their-(mode, value)-keys',
+                z3.ForAll([arq, aq, bq], z3.Implies(h, z3.And(arq == 2, 0 <= aq, aq < d, c.col[arq][aq][bq] == ICOL[aq], c.xv[arq][aq][bq] == bq,
+                                                              c.ln[arq][aq][bq] == N)), patterns=[h]))
+
+    def tables_ok(F, done):
+        """every stored table (position m) is the pair table of the modes (e1(d, m), e2(d, m)) of the m-th pair of the enumeration, and
+        the processed pairs (`done(a, b)`) have their positions inside the list"""
+        c = F.arr[mq]
+        rngm = z3.And(0 <= mq, mq < F.n)
+        keys, vals = facts(XAN.T2DOM(c), XAN.T2VAL(c), e1(mq), e2(mq))
+        return [('processed-pairs-sit-at-their-positions',
+                 z3.ForAll([aq, bq], z3.Implies(z3.And(0 <= aq, aq < bq, bq < d, done(aq, bq)), z3.And(0 <= pos(aq, bq), pos(aq, bq) < F.n)), patterns=[pos(aq, bq)])),
+                ('every-pair-of-observed-values-is-a-key',
+                 z3.ForAll([mq, t1q, t2q], z3.Implies(rngm, keys), patterns=[z3.MultiPattern(F.arr[mq], dmv(e1(mq))[t1q], dmv(e2(mq))[t2q])])),
+                ('every-key-holds-zero-or-the-conditional-mean-minus-the-lower-order-terms',
+                 z3.ForAll([mq, x1q, x2q], z3.Implies(rngm, vals), patterns=[XAN.T2DOM(c)[x1q][x2q], XAN.T2VAL(c)[x1q][x2q]]))]
+
+    def inv0(ex, s, j):                      # j = k1: all pairs with a smaller first mode are done
+        F = f2_of(s)
+        return [('one-table-per-processed-pair', F.n == XB2.b2_tri(d, j)), cache_ok(cache_of(s))] + tables_ok(F, lambda a, b: a < j)
+
+    def inv1(ex, s, j):                      # k2 = k1 + 1 + j
+        F, k1 = f2_of(s), mode(s, 'k1')
+        return [('first-mode-in-range', z3.And(0 <= k1, k1 < d)), ('next-table-goes-to-the-position-of-the-current-pair', F.n == pos(k1, k1 + 1 + j)),
+                cache_ok(cache_of(s))] + [(l + '(kept)', g) for l, g in tables_ok(F, lambda a, b: z3.Or(a < k1, z3.And(a == k1, b < k1 + 1 + j)))]
+
+    def cur_ok(s, k1, k2, rows, cols_):
+        """the table under construction: keys for the processed rows (all columns) and for `cols_` columns of the current row"""
+        cur = cur_of(s)
+        keys, vals = facts(cur.dom, cur.val, k1, k2)
+        out = [('processed-pairs-of-values-are-keys', z3.ForAll([t1q, t2q], z3.Implies(t1q < rows, keys), patterns=[z3.MultiPattern(dmv(k1)[t1q], dmv(k2)[t2q])])),
+               ('every-key-holds-zero-or-the-conditional-mean-minus-the-lower-order-terms(current)',
+                z3.ForAll([x1q, x2q], vals, patterns=[cur.dom[x1q][x2q], cur.val[x1q][x2q]]))]
+        if cols_ is not None:
+            out.insert(1, ('processed-values-of-the-current-row-are-keys',
+                           z3.ForAll([t2q], z3.Implies(z3.And(0 <= t2q, t2q < cols_), cur.dom[dmv(k1)[rows]][dmv(k2)[t2q]]), patterns=[dmv(k2)[t2q]])))
+        return out
+
+    def inv2(ex, s, j):                      # j = number of processed points of domain[k1]
+        k1, k2 = mode(s, 'k1'), mode(s, 'k2')
+        return [('modes-in-range', z3.And(0 <= k1, k1 < k2, k2 < d)), cache_ok(cache_of(s))] + cur_ok(s, k1, k2, j, None)
+
+    def inv3(ex, s, j):                      # j = number of processed points of domain[k2]; the row is that of loop 2
+        k1, k2, row = mode(s, 'k1'), mode(s, 'k2'), s.ghost['_j2']
+        x1 = s.vars.get('x1')
+        if not M.is_intsort(x1):
+            raise M.ContractMismatch('x1 is not an integer')
+        return [('modes-in-range', z3.And(0 <= k1, k1 < k2, k2 < d)), ('row-in-range', z3.And(0 <= row, row < dml(k1))),
+                ('x1-is-the-current-point-of-the-first-mode', Z(x1) == dmv(k1)[row]), cache_ok(cache_of(s))] + cur_ok(s, k1, k2, row, j)
+
+    def hook(ex, h, pre_, j):
+        XAN.havoc_attr(ex, h, 'self', 'f2')
+
+    ex = U.executor(fn, loops={0: {'inv': inv0, 'havoc_hook': hook}, 1: {'inv': inv1, 'havoc_hook': hook}, 2: {'inv': inv2}, 3: {'inv': inv3}},
+                    callees={'np.mean': XB2.b2_np_mean}, axioms=b2_AX,
+                    type_hints={'self.f2': lambda ex_, s_: XB2.b2_pair_table_seq(ex_, s_), 'cache': XB2.b2_dict_hint(XB2.b2_mask_cache),
+                                'f2_curr': XB2.b2_dict_hint(XB2.b2_pair_table)})
+    ex.anova, ex.rest_b2, ex.attr_havoc = True, True, {'self.f2'}
+    ex.mode = 'ematch'
+    st.vars.update(self=selfrec, I_trn=I_trn, y_trn=y_trn)
+    pre = [N >= 1, d >= 1, nold >= 0,
+           z3.ForAll([kq], z3.Implies(z3.And(0 <= kq, kq < d), dml(kq) >= 0), patterns=[DC[kq]]),
+           z3.ForAll([kq, tq], z3.Implies(z3.And(0 <= kq, kq < d, 0 <= tq, tq < dml(kq)),
+                                          z3.And(XAN.ccnt(ICOL[kq], dmv(kq)[tq], N) >= 1, DOM1[kq][dmv(kq)[tq]])), patterns=[dmv(kq)[tq]])]
+    res = U.run(ex, st, pre=pre)
+    U.cover('precondition-satisfiable', U.pre, axioms=b2_AX)
+
+    # closed form of the number of pairs with a smaller first mode, by induction over the first mode (constants: arbitrary d, a)
+    dd, aa = z3.Ints('d!l a!l')
+    closed = lambda d_, a_: 2 * XB2.b2_tri(d_, a_) == a_ * (2 * d_ - 1 - a_)
+    U.lemma('pairs-with-a-smaller-first-mode: 2 tri(d, a) = a (2d - 1 - a).base', [XB2.b2_tri(dd, 0) == 0], closed(dd, z3.IntVal(0)), qf=True, kind='lemma-base')
+    U.lemma('pairs-with-a-smaller-first-mode: 2 tri(d, a) = a (2d - 1 - a).step',
+            [aa >= 0, closed(dd, aa), XB2.b2_tri(dd, aa + 1) == XB2.b2_tri(dd, aa) + dd - 1 - aa], closed(dd, aa + 1), qf=True, kind='lemma-step')
+
+    kk1, kk2, pp, jj1, jj2, xx1, xx2, ar_, a_, b_ = z3.Ints('kk1 kk2 pp jj1 jj2 xx1 xx2 ar_ a_ b_')
+    for p, o in res:
+        if o.kind != 'return':
+            U.post('no-exception', p, False, axioms=b2_AX, mode='ematch')
+            continue
+        F = f2_of(p)
+        f = p.deref(selfrec).fields
+        U.post('returns-None', p, z3.BoolVal(o.value is NONE))
+        U.post('f2-is-a-new-list-and-no-other-attribute-is-written', p,
+               z3.BoolVal(set(f) == set(fields0) and isinstance(f['f2'], VRef) and f['f2'].oid not in heap0 and all(f[k] is fields0[k] for k in ('domain', 'f0', 'f1'))))
+        U.post('constant-term-first-order-tables-domain-and-data-untouched', p,
+               z3.BoolVal(p.heap[domref.oid].arr is DC and p.heap[f1ref.oid].arr is F1 and p.vars.get('I_trn') is I_trn and p.vars.get('y_trn') is y_trn
+                          and p.heap[oldf2.oid].n is nold))
+        cref = p.vars.get('cache')
+        U.post('mask-cache-is-a-dict-created-in-this-call-(nothing-carried-over)', p,
+               z3.BoolVal(isinstance(cref, VRef) and cref.oid not in heap0 and isinstance(p.heap[cref.oid], XB2.b2_MaskCache)))
+        c = cache_of(p)
+        U.post('every-cached-mask-is-the-mask-of-its-(mode, value)-key', list(p.pc) + [c.has[ar_][a_][b_]],
+               z3.And(ar_ == 2, 0 <= a_, a_ < d, c.col[ar_][a_][b_] == ICOL[a_], c.xv[ar_][a_][b_] == b_, c.ln[ar_][a_][b_] == N), axioms=b2_AX, mode='ematch')
+        # number of tables: instances of the closed form (proved above for arbitrary constants) and of the definition of tri at a = d - 1
+        inst = [z3.Implies(a >= 0, closed(d, a)) for a in (d - 1, d)] + [XB2.b2_tri(d, d) == XB2.b2_tri(d, d - 1) + d - 1 - (d - 1)]
+        U.post('number-of-tables-is-d(d-1)/2', [h for h in p.pc] + inst, 2 * F.n == d * (d - 1), qf=True)
+        # storage position = what pair_num_to_num returns
+        rng = [0 <= kk1, kk1 < kk2, kk2 < d]
+        at_pos = pp == pos(kk1, kk2)
+        U.lemma('table-position-of-a-pair-of-modes-is-the-one-pair_num_to_num-returns',
+                rng + [2 * pp == CA.pair_number_twice(d, kk1, kk2), closed(d, kk1), pos(kk1, kk2) == XB2.b2_tri(d, kk1) + kk2 - kk1 - 1], at_pos, qf=True)
+        ctx = list(p.pc) + rng + [2 * pp == CA.pair_number_twice(d, kk1, kk2), at_pos]
+        tab = F.arr[pp]
+        keys, vals = facts(XAN.T2DOM(tab), XAN.T2VAL(tab), kk1, kk2, jj1, jj2, xx1, xx2)
+        U.post('position-in-range', ctx, z3.And(0 <= pp, pp < F.n), axioms=b2_AX, mode='ematch')
+        U.post('every-pair-of-observed-values-of-the-two-modes-is-a-key-of-their-table', ctx, keys, axioms=b2_AX, mode='ematch')
+        U.post('every-key-is-a-pair-of-observed-values-and-holds-zero-or-the-conditional-mean-minus-f0-and-the-first-order-terms', ctx, vals, axioms=b2_AX, mode='ematch')
+        cnt = XB2.b2_ccnt2(ICOL[kk1], xx1, ICOL[kk2], xx2, N)
+        entry = XAN.T2VAL(tab)[xx1][xx2]
+        U.post('non-empty-case: (entry + f0 + f1[k1][x1] + f1[k2][x2]) * count = sum-of-y-over-the-samples-that-carry-the-pair',
+               [cnt >= 1, entry == b2_value(y, ICOL, N, f0, F1, kk1, xx1, kk2, xx2)],
+               (entry + f0 + F1[kk1][xx1] + F1[kk2][xx2]) * z3.ToReal(cnt) == XB2.b2_csum2(y, ICOL[kk1], xx1, ICOL[kk2], xx2, N), qf=True,
+               extra=[z3.Implies(cnt >= 1, XB2.b2_cmean2(y, ICOL[kk1], xx1, ICOL[kk2], xx2, N) * z3.ToReal(cnt) == XB2.b2_csum2(y, ICOL[kk1], xx1, ICOL[kk2], xx2, N))])
+        U.canary('canary-no-keys', ctx + [0 <= jj1, jj1 < dml(kk1), 0 <= jj2, jj2 < dml(kk2)], z3.Not(XAN.T2DOM(tab)[dmv(kk1)[jj1]][dmv(kk2)[jj2]]), axioms=b2_AX)
+        U.canary('canary-entries-are-zero', ctx + [XAN.T2DOM(tab)[xx1][xx2]], entry == 0, axioms=b2_AX)
+        U.canary('canary-entries-are-never-zero', ctx + [XAN.T2DOM(tab)[xx1][xx2]], entry != 0, axioms=b2_AX)
+        U.canary('canary-no-tables', p, F.n == 0, axioms=b2_AX)
+        U.canary('canary-cache-stays-empty', list(p.pc) + [d >= 2, dml(0) >= 1, dml(1) >= 1], z3.Not(c.has[2][0][dmv(0)[0]]), axioms=b2_AX)
+
+
+# ----------------------------------------------------------------------------------------------
+# Hand-made mutants (MUT_BASE=/tmp/base tools/mut.sh anova.py '<sed>' anova.ANOVA.build_2) and the named obligation that reports each.
+# R abbreviates the sed address '/def build_2/,/def calc(/' that restricts the edit to build_2.
+#
+# cache of masks (C10)
+#   R s/cache\[k1, x1\] = idx1/cache[k2, x1] = idx1/            (wrong mode)       inv-keep loop3.cached-masks-are-the-masks-of-their-(mode, value)-keys, loop3.every-key-holds-..(current)
+#   R s/cache\[k1, x1\]/cache[x1]/                               (value only)       inv-keep loop3.cached-masks-are-the-masks-of-their-(mode, value)-keys
+#   R s/cache\[k2, x2\] = idx2/cache[k2, x2] = idx1/            (wrong mask)       inv-keep loop3.cached-masks-are-..
+#   R s/idx2 = cache\[k2, x2\]/idx2 = cache[k1, x2]/            (wrong lookup)     inv-keep loop3.every-key-holds-zero-or-the-conditional-mean-minus-the-lower-order-terms(current)
+#   R s/idx2 = I_trn\[:, k2\] == x2/idx2 = I_trn[:, k1] == x2/                     inv-keep loop3.cached-masks-are-.., loop3.every-key-holds-..(current)
+#   /self.f2.append(f2_curr)/a\        self.cache = cache         (cache kept on the object)   post f2-is-a-new-list-and-no-other-attribute-is-written (refuted)
+# values
+#   R s/- self.f1\[k2\]\[x2\]/+ self.f1[k2][x2]/                                  inv-keep loop3.every-key-holds-..(current)
+#   R s/np.mean(y_trn\[idx\]) - self.f0/np.mean(y_trn[idx])/                       inv-keep loop3.every-key-holds-..(current)
+#   R s/if idx.sum() == 0:/if idx.sum() != 0:/                                      safety mean-of-a-non-empty-selection, inv-keep loop3.every-key-holds-..(current)
+#   R s/value = 0\./value = 1./                                                     inv-keep loop3.every-key-holds-..(current)
+#   R s/idx = idx1 & idx2/idx = idx1 \& idx1/                                       inv-keep loop3.every-key-holds-..(current)
+#   R s/f2_curr\[x1, x2\] = value/f2_curr[x2, x1] = value/                         inv-keep loop3.processed-values-of-the-current-row-are-keys, loop3.every-key-holds-..(current)
+# pairs of modes / storage order
+#   R s/start=k1+1)/start=k1)/                                                      inv-init loop2.modes-in-range, safety key-present, inv-keep loop3 / loop2 / loop1 (keys, values)
+#   R s/enumerate(self.domain\[k1+1:\], start=k1+1)/enumerate(self.domain[k1:], start=k1)/     inv-init loop2.modes-in-range, inv-keep loop1.every-..(kept), loop0.one-table-per-processed-pair
+#   R s/enumerate(self.domain\[:-1\])/enumerate(self.domain[:-2])/                 safety slice-in-range, post number-of-tables-is-d(d-1)/2 (refuted), position-in-range, the two table posts
+#   R s/        self.f2 = \[\]/        pass/                     (not rebuilt)      inv-init loop0.one-table-per-processed-pair (+ two more), post f2-is-a-new-list-.. (refuted), post constant-term-..-untouched (refuted)
+# quiet (equivalent, everything proved): enumerate(self.domain) for enumerate(self.domain[:-1]); idx2 & idx1; cache = {}; 0 == idx.sum(); the two f1 terms
+#   subtracted in the other order; y_trn[idx].mean(); range-based loops `for k1 in range(len(self.domain) - 1): dm1 = self.domain[k1]` (both levels);
+#   no cache for idx1 (`idx1 = I_trn[:, k1] == x1` only).
+# undecided (Unsupported / ContractMismatch): `if (k1, x1) in cache:` instead of try / except; `except (KeyError, IndexError):`; idx1 | idx2; a mask `!=`
+#   stored into the cache; `for x2 in dm2[::-1]`; y_trn[idx].sum() / idx.sum(); self.f2.append moved out of the loop over k2 (unbound name).
+
+
+# ==================================================================================================
+# SECTION sample_rand_poi / cdf_confidence / cross_act
+# ==================================================================================================
+"""Sidecar contracts for sample.sample_rand_poi (C14 / C10), stat.cdf_confidence (C18 / C10) and the control tier of
+cross_act.cross_act with its two generator-carrying helpers _inter_update / _amen_z (C10).
+Model-table entries: ttvc/mx_rest.py (all gated by `ex.rest_sp = True`)."""
+import z3
+from ttvc.units import unit
+from ttvc.symex import VOpt, VStr, VRec, VSeq, VArr, VFunc, VTuple, VRef, VList, VSym, NONE, Z
+from ttvc import models as M, theory as T, pt as PT, rnd as R
+from ttvc import mx_misc as XM
+from ttvc import mx_rest as XSP
+from contracts import spec as S, misc as CM
+
+sp_kk = z3.Int('rest_sp_kk')
+sp_tt = z3.Int('rest_sp_tt')
+
+
+# ----------------------------------------------------------------------------------------------
+# sample.sample_rand_poi  (C14: "all samplers return ... arrays of the requested shape inside the ... bounds" - here the box [a, b];
+#                          C10: "given a generator object it draws from that object only", same seed -> same sequence of draws)
+#
+# Proved for every d >= 1, limits a, b of length d (lists of floats or float vectors; NO order between a_k and b_k is assumed),
+# m with int(m) >= 0 (int or float, truncated), seed None / int / Generator object:
+#   * the result is the float matrix of shape (int(m), d), one row per point;
+#   * X[t, k] lies in [a_k, b_k] whenever a_k <= b_k (model-table fact about Generator.uniform, cf. mx_misc.method4);
+#   * the generator is obtained by ONE call _rand(seed) (call-site contract contracts.misc.logging_rand, unit utils._rand) and a
+#     Generator object is used as it is; column k is draw number k of that generator: uniform(a_k, b_k, int(m)) - exactly d draws
+#     in the order of the dimensions, so the sequence of draws is a function of the arguments alone (C10);
+#   * a and b are not modified.
+# Not covered: the distribution (uniformity / independence: bounded suite C14), limit lists of Python ints (same under A-REAL),
+# the half-open upper end of uniform, a_k > b_k (NumPy leaves it undefined; nothing is claimed for such a column but shape and order
+# of the draws), b longer than a (the code silently ignores the tail; here len(b) = len(a) is a precondition).
+
+def _sp_rand_poi_unit(U, akind, mkind, skind):
+    d, db = z3.Ints('d db')
+    aarr, barr = z3.Const('a', XM.RA), z3.Const('b', XM.RA)
+    fn = U.func('sample', 'sample_rand_poi')
+    ex = U.executor(fn, callees={'utils._rand': CM.logging_rand})
+    ex.rest_sp = True
+    st = U.state()
+    if akind == 'list':
+        aval = st.alloc(VSeq(aarr, d, lambda t: t, tag='real'))
+        bval = st.alloc(VSeq(barr, db, lambda t: t, tag='real'))
+    else:
+        aval, bval = XM.rvec(d, aarr), XM.rvec(db, barr)
+    m0 = z3.Int('m') if mkind == 'int' else z3.Real('m')
+    mi = m0 if mkind == 'int' else CM.trunc(m0)
+    seed = {'int': z3.Int('seed'), 'none': NONE, 'generator': R.VGen('caller')}[skind]
+    st.vars.update(a=aval, b=bval, m=m0, seed=seed)
+    res = U.run(ex, st, pre=[d >= 1, db == d, mi >= 0])
+    U.assumed.append('utils._rand (unit utils._rand)')
+    U.cover('precondition-satisfiable', U.pre)
+    for p, o in res:
+        if o.kind != 'return':
+            U.post('no-exception', p, False)
+            continue
+        rcalls, log = p.ghost.get('randcalls', []), p.ghost.get('drawlog', [])
+        U.post('seed-goes-through-_rand-exactly-once', p, z3.BoolVal(len(rcalls) == 1 and rcalls[0][0] is seed))
+        X = p.deref(o.value)
+        ok = isinstance(X, VArr) and X.ndim == 2 and X.tag == 'rest_sp_fmat'
+        U.post('result-is-the-matrix-of-the-drawn-coordinates', p, z3.BoolVal(ok))
+        U.post('one-family-of-draws: one per dimension', p, z3.BoolVal(len(log) == 1 and 'family' in log[0]))
+        if not (ok and len(rcalls) == 1 and len(log) == 1 and 'family' in log[0]):
+            continue
+        g, dr = rcalls[0][1], log[0]
+        j, cnt = dr['family']
+        if skind == 'generator':
+            U.post('a-generator-object-is-used-as-it-is', p, z3.BoolVal(g is seed))
+        U.post('float-array-of-shape-(int(m),d), one row per point', p, z3.And(z3.BoolVal(X.dtype == 'f' and X.transposed), Z(X.shape[0]) == mi, Z(X.shape[1]) == d))
+        if not X.transposed:
+            continue
+        ent = XSP.sp_fmat_entry(X, sp_tt, sp_kk)
+        inside = z3.And(0 <= sp_tt, sp_tt < mi, 0 <= sp_kk, sp_kk < d)
+        U.post('every-coordinate-lies-between-its-limits: a_k <= X[t,k] <= b_k', p,
+               z3.Implies(z3.And(inside, aarr[sp_kk] <= barr[sp_kk]), z3.And(aarr[sp_kk] <= ent, ent <= barr[sp_kk])))
+        U.post('the-draws-come-from-the-generator-returned-by-_rand', p, z3.BoolVal(dr['gen'] is g))
+        U.post('column-k-is-draw-number-k: uniform(a_k, b_k, int(m))', p,
+               z3.And(z3.BoolVal(dr['method'] == 'uniform' and X.rows is dr['out'] and len(dr['shape']) == 1),
+                      cnt == d, Z(dr['shape'][0]) == mi,
+                      z3.Implies(z3.And(0 <= sp_kk, sp_kk < d),
+                                 z3.And(z3.substitute(dr['idx'], (j, sp_kk)) == sp_kk, z3.substitute(dr['params'][0], (j, sp_kk)) == aarr[sp_kk],
+                                        z3.substitute(dr['params'][1], (j, sp_kk)) == barr[sp_kk]))))
+        U.post('exactly-d-draws', p, Z(p.ghost.get('ndraw', z3.IntVal(0))) == d)
+        if akind == 'list':
+            U.post('argument-lists-are-not-modified', p, z3.BoolVal(p.heap[aval.oid].arr is aarr and p.heap[aval.oid].n is d
+                                                                    and p.heap[bval.oid].arr is barr and p.heap[bval.oid].n is db))
+        else:
+            U.post('argument-arrays-are-not-rebound-or-stored-into', p, z3.BoolVal(p.vars.get('a') is aval and p.vars.get('b') is bval))
+        U.canary('canary-all-coordinates-equal-the-lower-limit', p, z3.Implies(inside, ent == aarr[sp_kk]))
+        U.canary('canary-no-points', p, mi == 0)
+
+
+for _sp_ak, _sp_mk, _sp_sk in (('list', 'int', 'int'), ('list', 'float', 'none'), ('array', 'int', 'generator'), ('list', 'int', 'generator'),
+                               ('array', 'float', 'int')):
+    def _sp_mk_unit(ak=_sp_ak, mk=_sp_mk, sk=_sp_sk):
+        @unit(f'sample.sample_rand_poi.{ak}.m_{mk}.seed_{sk}', props=('C14', 'C10'))
+        def u(U):
+            _sp_rand_poi_unit(U, ak, mk, sk)
+    _sp_mk_unit()
+
+
+# ----------------------------------------------------------------------------------------------
+# stat.cdf_confidence  (C18 anchors teneva/stat.py, the empirical-CDF helpers;  C10: "functions without randomness return
+#                       bit-identical results on repeated calls" - here: no generator is created or used)
+#
+# The Dvoretzky-Kiefer-Wolfowitz band exactly as the docstring / code gives it, in the pointwise tier (ttvc/pt.py: the arrays are
+# observed at one arbitrary position i, 0 <= i < m = len(x); all array operations of the function are elementwise array-with-number
+# operations, so the position is the same in every array).  Proved for every 1-D float array x of length m >= 1 and
+#   * every real alpha with 0 < alpha <= 2                      (unit ..alpha_real),
+#   * the default alpha (read from the signature: 0.05)          (unit ..alpha_default):
+#   - two arrays of the length of x;  lower[i] = clip(x[i] - eps, 0, 1),  upper[i] = clip(x[i] + eps, 0, 1);
+#   - eps >= 0 and eps^2 * (2 m) = ln(2 / alpha)  (the argument of the logarithm is 2 / alpha; 40 for the default);
+#   - 0 <= lower[i] <= upper[i] <= 1;  lower[i] <= x[i] <= upper[i] whenever 0 <= x[i] <= 1 (an empirical CDF value);
+#     upper[i] - lower[i] <= 2 eps, with equality where no clipping happens (eps <= x[i] <= 1 - eps);
+#   - no generator is created or used (nothing is drawn); x is not rebound or stored into.
+# What makes the square root defined is made explicit as preconditions / safety obligations: alpha != 0 (division), 2 / alpha > 0
+# (logarithm; with the first: alpha > 0), 2 m != 0 (division: m >= 1), ln(2 / alpha) / (2 m) >= 0 (root: 2 / alpha >= 1, i.e.
+# alpha <= 2, by the sign of ln).  That alpha <= 2 is also NECESSARY (ln < 0 below 1) is not formalised: ln is uninterpreted with
+# ln(1) = 0, monotonicity and its sign only (group 'rest_sp_ln', spot-checked against np.log); the model of np.log hands out the
+# instances of these axioms for its argument, so every obligation of this unit is quantifier free (non-linear real arithmetic).
+# Not covered: the value of ln(2 / alpha) itself, rounding (A-REAL), NaN entries of x, 2-D x, alpha given as an array,
+# the statistical meaning of the band (coverage 1 - alpha).
+
+def sp_clip_spec(v, lo, hi):
+    """clip as the property states it (clamp to [lo, hi], lo <= hi); np.clip itself is modelled as minimum(maximum(v, lo), hi)"""
+    return z3.If(v < lo, lo, z3.If(v > hi, hi, v))
+
+
+def _sp_mentions_decl(t, decl):
+    stack, seen = [t], set()
+    while stack:
+        u = stack.pop()
+        if u.get_id() in seen:
+            continue
+        seen.add(u.get_id())
+        if z3.is_app(u):
+            if u.decl().eq(decl):
+                return True
+            stack.extend(u.children())
+    return False
+
+
+def _sp_cdf_conf_unit(U, akind):
+    fn = U.func('stat', 'cdf_confidence')
+    ex = U.executor(fn, callees={'np.log': XSP.sp_m_log, 'np.clip': XSP.sp_m_clip, 'utils._rand': CM.logging_rand})
+    ex.rest_sp = True
+    st = U.state()
+    N = z3.Int('m')
+    xe = z3.Real('x_i')
+    x = PT.pt((N,), xe)
+    if akind == 'real':
+        alpha = z3.Real('alpha')
+        pre = [N >= 1, alpha > 0, alpha <= 2]
+    else:
+        alpha = ex.ev(fn.defaults['alpha'], st)              # the default expression of the signature
+        pre = [N >= 1]
+    st.vars.update(x=x, alpha=alpha)
+    res = U.run(ex, st, pre=pre)
+    U.cover('precondition-satisfiable', U.pre)
+    for p, o in res:
+        if o.kind != 'return':
+            U.post('no-exception', p, False)
+            continue
+        v = o.value
+        ok = isinstance(v, VTuple) and len(v.items) == 2 and all(PT.is_pt(p.deref(w)) and p.deref(w).ndim == 1 and p.deref(w).dtype == 'f' for w in v.items)
+        U.post('returns-a-pair-of-1-D-float-arrays', p, z3.BoolVal(bool(ok)))
+        eps, lns = p.vars['eps'], p.ghost.get('rest_sp_ln', [])          # (a renamed local: KeyError -> ContractMismatch, undecided)
+        ok2 = z3.is_expr(eps) and eps.sort() == z3.RealSort() and len(lns) == 1
+        U.post('eps-is-a-number-computed-with-one-logarithm', p, z3.BoolVal(bool(ok2)))
+        if not (ok and ok2):
+            continue
+        if _sp_mentions_decl(eps, XM.powf):
+            # `(..) ** 0.5` instead of np.sqrt: mx_misc.power abstracts a general power by the uninterpreted powf (no facts) - the
+            # contract cannot judge such a rewrite: undecided, not a violation
+            raise M.ContractMismatch('cdf_confidence: eps is computed with a general power (x ** p), not with np.sqrt')
+        lo, up = [p.deref(w) for w in v.items]
+        U.post('both-arrays-have-the-length-of-x', p, z3.And(Z(lo.shape[0]) == N, Z(up.shape[0]) == N))
+        if akind == 'real':
+            U.post('the-logarithm-is-taken-of-2/alpha', p, z3.And(lns[0] * alpha == 2, lns[0] >= 1))
+        else:
+            U.post('default-alpha-is-0.05-and-the-logarithm-is-taken-of-2/alpha = 40', p, z3.And(z3.BoolVal(alpha == 0.05), lns[0] == Z(2. / 0.05), lns[0] == 40))
+        L = XSP.sp_ln(lns[0])
+        U.post('eps-is-the-non-negative-root: eps >= 0 and eps^2 * (2 m) = ln(2/alpha)', p, z3.And(eps >= 0, eps * eps * (2 * z3.ToReal(N)) == L), qf=True)
+        U.post('lower[i] = clip(x[i] - eps, 0, 1)', p, lo.t == sp_clip_spec(xe - eps, 0, 1))
+        U.post('upper[i] = clip(x[i] + eps, 0, 1)', p, up.t == sp_clip_spec(xe + eps, 0, 1))
+        U.post('0 <= lower[i] <= upper[i] <= 1', p, z3.And(0 <= lo.t, lo.t <= up.t, up.t <= 1))
+        U.post('the-band-contains-x[i] when 0 <= x[i] <= 1', p, z3.Implies(z3.And(0 <= xe, xe <= 1), z3.And(lo.t <= xe, xe <= up.t)))
+        U.post('band-width <= 2 eps, = 2 eps where nothing is clipped', p,
+               z3.And(up.t - lo.t <= 2 * eps, z3.Implies(z3.And(eps <= xe, xe <= 1 - eps), up.t - lo.t == 2 * eps)))
+        U.post('no-generator-is-created-or-used', p, z3.BoolVal(not p.ghost.get('randcalls') and not p.ghost.get('drawlog')))
+        U.post('x-is-not-rebound-or-stored-into', p, z3.BoolVal(p.vars.get('x') is x))
+        U.cover('the-return-path-is-reachable (final path condition satisfiable)', p.pc)
+        U.canary('canary-the-band-is-empty', p, lo.t == up.t)
+        U.canary('canary-eps-is-zero', p, eps == 0)
+        U.canary('canary-lower-is-never-clipped', p, lo.t == xe - eps)
+
+
+for _sp_akind in ('real', 'default'):
+    def _sp_mk_unit2(ak=_sp_akind):
+        @unit(f'stat.cdf_confidence.alpha_{ak}', props=('C18', 'C10'))
+        def u(U):
+            _sp_cdf_conf_unit(U, ak)
+    _sp_mk_unit2()
+
+
+# ----------------------------------------------------------------------------------------------
+# cross_act.cross_act, CONTROL TIER ONLY  (C10: "all random draws routed through that generator"; anchors teneva/cross_act.py)
+#
+# Lenient executor in the style of the control tier of cross.cross (contracts/cross.py): array contents are not interpreted, the
+# results of the helpers (_inter_build, _inter_update, _func, _svd, _amen, _amen_z, _matrix_to_core, core_dot, core_dot_inv,
+# accuracy) are opaque values about which NOTHING is assumed; the object array X and the interface arrays Rx .. Ryz are opaque.
+# Proved for every d >= 2 (Y0 well-formed, D = 2 input tensors of length d), every nswp / e / r / dr / dr2 (dr > 0 and dr <= 0
+# are both followed), seed None / int / Generator object, on every path through the initialisation loop and the sweep loop:
+#   * _rand is called exactly once, with the seed argument itself, and never again inside a loop; a Generator object is used as
+#     it is;
+#   * every call of a helper that draws - tensors.rand (error tensor Z), _inter_update (both call sites: it draws a permutation
+#     when z_rand is set), _amen_z (both call sites: it hands the generator on to core_qr_rand) - receives exactly that generator
+#     object in its generator parameter (the position is read from the helper's real signature);
+#   * the body of cross_act mentions neither np.random nor the module random (syntactic; needed because the lenient tier would
+#     turn an unknown np.random.* call into an opaque value);
+#   * control / index safety of the sweep: with the invariant "ltr: -1 <= i <= d-2, rtl: 1 <= i <= d" every access Y[i], Z[i],
+#     Y[i +- 1] is inside the lists, which keep their d entries; the result is the working list Y (d cores), a different list
+#     object than Y0 (fresh by the contract of orthogonalize), and the argument lists Y0 / X_list[k] are not modified.
+# With the units cross_act._inter_update.* and cross_act._amen_z.* below (the helpers draw from the generator they are handed and
+# from nothing else) and core.core_qr_rand.* / tensors.rand.*.seed_generator (contracts/core_more.py, misc.py) this closes the
+# C10 chain for cross_act.
+# NOT covered (bounded suites C10 / C09): everything about values and shapes (the helpers' preconditions - e.g. that the tensor
+# returned by tensors.rand for an ndarray n is well-formed before it is orthogonalised - are NOT discharged in this tier: for the
+# error tensor only "tensors.rand / orthogonalize return a list with one core per mode" is used), termination of the sweep loop,
+# the objective f (A-CB: pure), the copies `G.copy()` of the input cores, the interface arrays' index ranges (opaque), D != 2.
+
+def _sp_arg(args, kwargs, params, name, default=NONE):
+    k = params.index(name)
+    if k < len(args):
+        return args[k]
+    return kwargs.get(name, default)
+
+
+def _sp_opaque(name, n=None):
+    def h(ex, s, a, k, node):
+        if n is None:
+            return M.VOpaque(name)
+        return VTuple([M.VOpaque(f'{name}{i}') for i in range(n)])
+    return h
+
+
+def _sp_mentions_global_rng(fn):
+    import ast
+    for x in ast.walk(fn.node):
+        if isinstance(x, ast.Attribute) and ast.unparse(x).startswith(('np.random', 'numpy.random', 'random.')):
+            return True
+        if isinstance(x, ast.Name) and x.id == 'random':
+            return True
+    return False
+
+
+def _sp_gen_of(s):
+    rc = s.ghost.get('randcalls', [])
+    return rc[0][1] if len(rc) == 1 else None
+
+
+def _sp_cross_act_unit(U, skind):
+    fn = U.func('cross_act', 'cross_act')
+    sigs = {q: U.func(m_, q).params for m_, q in (('tensors', 'rand'), ('cross_act', '_inter_update'), ('cross_act', '_amen_z'))}
+    st = U.state()
+    d = z3.Int('d')
+    X1, A1, _ = S.tt_param(st, 'X1', d)
+    X2, A2, _ = S.tt_param(st, 'X2', d)
+    Y0, B0, _ = S.tt_param(st, 'Y0', d)
+    seed = {'int': z3.Int('seed'), 'none': NONE, 'generator': R.VGen('caller')}[skind]
+    sites = []
+
+    def handed(ex, s, val, who, node):
+        g = _sp_gen_of(s)          # recorded per call (every path through every call site); reported below as one obligation per helper
+        sites.append((who, getattr(node, 'lineno', 0), g is not None and val is g))
+
+    def c_rand(ex, s, a, k, node):
+        handed(ex, s, _sp_arg(a, k, sigs['rand'], 'seed'), 'tensors.rand', node)
+        n = s.deref(a[0])
+        if not (isinstance(n, VArr) and n.ndim == 1):
+            raise M.ContractMismatch('cross_act: tensors.rand is not called with the shape vector')
+        ref = s.alloc(VSeq(ex.fresh('Zrand', T.TT), Z(n.shape[0]), M.mk_core, 'core'))     # one core per mode (tensors.rand: post d-cores); nothing else
+        s.ghost['rest_sp_err_oid'] = ref.oid
+        return ref
+
+    def c_orth(ex, s, a, k, node):
+        if isinstance(a[0], VRef) and a[0].oid == s.ghost.get('rest_sp_err_oid'):
+            v = s.deref(a[0])        # error tensor: control tier, precondition (well-formedness) not discharged; a list of the same length
+            return s.alloc(VSeq(ex.fresh('Zorth', T.TT), v.n, M.mk_core, 'core'))
+        return M.CALLEES['transformation.orthogonalize'](ex, s, a, k, node)
+
+    def c_inter_update(ex, s, a, k, node):
+        handed(ex, s, _sp_arg(a, k, sigs['_inter_update'], 'rand'), '_inter_update', node)
+        return _sp_opaque('iu', 5)(ex, s, a, k, node)
+
+    def c_amen_z(ex, s, a, k, node):
+        handed(ex, s, _sp_arg(a, k, sigs['_amen_z'], 'rand'), '_amen_z', node)
+        return M.VOpaque('amen_z')
+
+    callees = {'utils._rand': CM.logging_rand, 'tensors.rand': c_rand, 'transformation.orthogonalize': c_orth,
+               'cross_act._inter_build': _sp_opaque('R'), 'cross_act._inter_update': c_inter_update, 'cross_act._func': _sp_opaque('func'),
+               'core.core_dot_inv': _sp_opaque('core_dot_inv'), 'core.core_dot': _sp_opaque('core_dot'),
+               'act_two.accuracy': lambda ex, s, a, k, node: ex.fresh_real('acc'),
+               'cross_act._svd': _sp_opaque('svd', 3), 'cross_act._log': lambda ex, s, a, k, node: NONE,
+               'cross_act._amen_z': c_amen_z, 'cross_act._amen': _sp_opaque('amen', 2), 'cross_act._matrix_to_core': _sp_opaque('core')}
+
+    def lists(s):
+        Ys, Zs = s.deref(s.vars['Y']), s.deref(s.vars['Z'])
+        if not (isinstance(Ys, VSeq) and isinstance(Zs, VSeq)):
+            raise M.ContractMismatch('cross_act: Y / Z are not lists')
+        return Ys, Zs
+
+    def inv_init(ex, s, j):
+        Ys, Zs = lists(s)
+        return [('solution-tensor-keeps-d-cores', Ys.n == d), ('error-tensor-keeps-d-entries', Zs.n == d)]
+
+    def inv_sweep(ex, s, j):
+        Ys, Zs = lists(s)
+        i, ltr = s.vars['i'], s.vars['ltr']
+        if not (M.is_intsort(i) and M.is_boolv(ltr)):
+            raise M.ContractMismatch('cross_act: i / ltr are not the position and direction of the sweep')
+        return [('solution-tensor-keeps-d-cores', Ys.n == d), ('error-tensor-keeps-d-entries', Zs.n == d),
+                ('position-before-the-step: ltr -1..d-2, rtl 1..d', z3.If(Z(ltr), z3.And(-1 <= Z(i), Z(i) <= d - 2), z3.And(1 <= Z(i), Z(i) <= d)))]
+
+    in_loops = []
+
+    def body_end(ex, s, o, j):
+        in_loops.append(len(s.ghost.get('randcalls', [])) == 1)
+
+    ex = U.executor(fn, loops={0: {'inv': inv_init, 'body_end': body_end}, 1: {'inv': inv_sweep, 'body_end': body_end}}, callees=callees,
+                    axioms=T.axioms('shape'), lenient=True)
+    if ex.nloops != 2:
+        raise M.ContractMismatch(f'cross_act(): expected 2 loops (initialisation of the interfaces, sweep), found {ex.nloops}')
+    f = VFunc('f', lambda ex_, s, a, k, node: M.VOpaque('f(X)'))
+    xl = st.alloc(VList([X1, X2]))
+    st.vars.update(f=f, X_list=xl, Y0=Y0, e=z3.Real('e'), nswp=z3.Int('nswp'), r=z3.Int('r'), dr=z3.Int('dr'), dr2=z3.Int('dr2'), seed=seed,
+                   log=False, object=M.TypeVal('object'))              # `dtype=object`: the builtin type, bound like a local name
+    res = U.run(ex, st, pre=[d >= 2, T.wf(B0, d)])
+    U.assumed.extend(['utils._rand (unit utils._rand)', 'transformation.orthogonalize (unit transformation.orthogonalize)', 'props.shape (unit props.shape)',
+                      'tensors.rand: one core per mode (units tensors.rand.*)'])
+    U.cover('precondition-satisfiable', U.pre, axioms=T.axioms('shape'))
+    cnt = {w: len({ln for (w2, ln, _) in sites if w2 == w}) for w in ('tensors.rand', '_inter_update', '_amen_z')}
+    if cnt != {'tensors.rand': 1, '_inter_update': 2, '_amen_z': 2}:
+        raise M.ContractMismatch(f'cross_act(): the call sites of the drawing helpers changed: {cnt}')
+    for w, what in (('tensors.rand', 'seed'), ('_inter_update', 'rand'), ('_amen_z', 'rand')):
+        U.post(f'every-call-of-{w}-is-handed-the-generator-returned-by-_rand(seed) as its `{what}`', [],
+               z3.BoolVal(all(ok for (w2, _, ok) in sites if w2 == w)))
+    U.post('no-further-_rand-call-inside-a-loop', [], z3.BoolVal(len(in_loops) >= 2 and all(in_loops)))
+    U.post('cross_act-does-not-mention-np.random-or-random', [], z3.BoolVal(not _sp_mentions_global_rng(fn)))
+    # (obligations that are decided on the Python side - object identities, counts - carry no hypotheses: a failure is refuted at once)
+    nret = 0
+    for p, o in res:
+        if o.kind != 'return':
+            U.post('only-returns', p, False, axioms=ex.axioms)
+            continue
+        nret += 1
+        rcalls = p.ghost.get('randcalls', [])
+        U.post('seed-goes-through-_rand-exactly-once', [], z3.BoolVal(len(rcalls) == 1 and rcalls[0][0] is seed))
+        if skind == 'generator' and len(rcalls) == 1:
+            U.post('a-generator-object-is-used-as-it-is', [], z3.BoolVal(rcalls[0][1] is seed))
+        U.post('the-generator-variable-still-holds-that-generator', [], z3.BoolVal(len(rcalls) == 1 and p.vars['rand'] is rcalls[0][1]))
+        Ys = p.deref(o.value)
+        U.post('returns-the-working-list-of-d-cores-not-Y0', p,
+               z3.And(z3.BoolVal(isinstance(o.value, VRef) and o.value.oid != Y0.oid and isinstance(Ys, VSeq) and Ys.tag == 'core'
+                                 and o.value.oid == p.vars['Y'].oid), Ys.n == d), axioms=ex.axioms)
+        U.post('argument-lists-are-not-modified', [],
+               z3.BoolVal(p.heap[Y0.oid].arr is B0 and p.heap[X1.oid].arr is A1 and p.heap[X2.oid].arr is A2 and p.heap[Y0.oid].n is d
+                          and len(p.heap[xl.oid].items) == 2 and p.heap[xl.oid].items[0] is X1 and p.heap[xl.oid].items[1] is X2))
+        U.canary('canary-return-path-is-contradictory', p, False, axioms=ex.axioms)
+    U.post('both-exits-of-the-sweep-loop-are-reached (budget and convergence), with and without the error tensor', [], z3.BoolVal(nret >= 4))
+
+
+for _sp_sk in ('int', 'none', 'generator'):
+    def _sp_mk_unit3(sk=_sp_sk):
+        @unit(f'cross_act.cross_act.control.seed_{sk}', props=('C10',))
+        def u(U):
+            _sp_cross_act_unit(U, sk)
+    _sp_mk_unit3()
+
+
+# ----------------------------------------------------------------------------------------------
+# cross_act._inter_update / cross_act._amen_z, CONTROL TIER  (C10: the two helpers of cross_act that are handed the generator)
+#
+# Lenient executor; the results of core_dot_maxvol / core_dot_inv / _svd / _reshape / core_qr_rand are opaque, their preconditions are
+# not discharged here (shape tier: units core.core_dot_maxvol.*, core.core_qr_rand.*).  Proved:
+#   _inter_update (Gz None / a core, z_rand False / True, both directions):
+#     * with z_rand and an error core Gz: exactly ONE draw, taken from the generator parameter `rand`: permutation(r1*n) for ltr,
+#       permutation(n*r2) for rtl (products in the engine's abstraction mulI), and the row selection handed to core_dot_maxvol for
+#       Gz consists of the first r2 (ltr) / r1 (rtl) entries of that permutation (precondition: that many entries exist, r2 <= r1*n
+#       resp. r1 <= n*r2 - the engine's slice model does not clip);  the first selection (for Gy) is left to maxvol (ind = None);
+#     * without z_rand or without Gz: nothing is drawn;   * _rand is never called; np.random / random are not mentioned; 5 results.
+#   _amen_z (is_dz False / True, both directions, rand a Generator object / the default None):
+#     * not is_dz: exactly one call core_qr_rand(G, dr2, ltr, rand) - its `seed` parameter is the object that came in as `rand`
+#       (a Generator: the caller's generator is used for the random rows; None: core_qr_rand seeds itself - that is why cross_act
+#       has to hand the generator over, unit cross_act.cross_act.control.*), `m` is dr2, `ltr` is ltr;   * is_dz: no such call;
+#     * _amen_z itself draws nothing, never calls _rand and does not mention np.random / random.
+# NOT covered: all values and shapes (bounded suites), which rows maxvol selects.
+
+def _sp_inter_update_unit(U, gz, z_rand):
+    fn = U.func('cross_act', '_inter_update')
+    st = U.state()
+    gen = R.VGen('param')
+    ltr = z3.Bool('ltr')
+    Gy, _ = S.core_param('Gy')
+    Gz, Gzt = (NONE, None) if gz == 'none' else S.core_param('Gz')
+    Ry0 = M.VOpaque('Ry[i]')
+
+    def c_maxvol(ex, s, a, k, node):          # logged in the ghost state: per path, aborted replays of a statement leave no trace
+        s.ghost['rest_sp_maxvol'] = s.ghost.get('rest_sp_maxvol', []) + [(list(a), dict(k))]
+        return VTuple([M.VOpaque('R'), M.VOpaque('ind')])
+
+    ex = U.executor(fn, callees={'core.core_dot_maxvol': c_maxvol, 'utils._rand': CM.logging_rand}, axioms=T.axioms('shape', 'mulI'), lenient=True)
+    ex.rest_sp = True
+    st.vars.update(Gx=M.VOpaque('X[i, :]'), Gy=Gy, Gz=Gz, Rx=M.VOpaque('Rx[i, :]'), Ry=Ry0, Rz=M.VOpaque('Rz[i]'),
+                   Rxz=M.VOpaque('Rxz[i, :]'), Ryz=M.VOpaque('Ryz[i]'), rand=gen, z_rand=z_rand, ltr=ltr)
+    pre = []
+    if Gzt is not None:
+        r1, n, r2 = T.d0(Gzt), T.d1(Gzt), T.d2(Gzt)
+        pre = [r1 >= 1, n >= 1, r2 >= 1]
+        if z_rand:
+            pre.append(z3.If(ltr, r2 <= T.mul_canon(r1, n), r1 <= T.mul_canon(n, r2)))
+    res = U.run(ex, st, pre=pre)
+    U.cover('precondition-satisfiable', U.pre, axioms=ex.axioms)
+    # (obligations that are decided on the Python side - object identities, counts - carry no hypotheses: a failure is refuted at once)
+    U.post('_inter_update-does-not-mention-np.random-or-random', [], z3.BoolVal(not _sp_mentions_global_rng(fn)))
+    nret = 0
+    for p, o in res:
+        if o.kind != 'return':
+            U.post('only-returns', p, False, axioms=ex.axioms)
+            continue
+        nret += 1
+        log, calls = p.ghost.get('drawlog', []), p.ghost.get('rest_sp_maxvol', [])
+        U.post('_rand-is-never-called', [], z3.BoolVal(not p.ghost.get('randcalls')))
+        U.post('returns-the-five-interface-updates', [], z3.BoolVal(isinstance(o.value, VTuple) and len(o.value.items) == 5))
+        first = [c for c in calls if len(c[0]) >= 3 and c[0][0] is Gy and c[0][1] is Ry0]
+        U.post('the-first-selection-is-left-to-maxvol (ind = None)', [], z3.BoolVal(len(first) == 1 and first[0][0][2] is NONE))
+        forgz = [c for c in calls if len(c[0]) >= 3 and c[0][0] is Gz] if Gzt is not None else []
+        if Gzt is not None:
+            U.post('one-maxvol-call-for-the-error-core', [], z3.BoolVal(len(forgz) == 1))
+        if not (z_rand and Gzt is not None):
+            U.post('nothing-is-drawn', [], z3.BoolVal(len(log) == 0))
+            if len(forgz) == 1:
+                U.post('without-z_rand-the-selection-for-Gz-is-left-to-maxvol (ind = None)', [], z3.BoolVal(forgz[0][0][2] is NONE))
+            continue
+        U.post('exactly-one-draw-from-the-generator-parameter: a permutation', [],
+               z3.BoolVal(len(log) == 1 and log[0]['gen'] is gen and log[0]['method'] == 'permutation' and len(log[0]['shape']) == 1))
+        if not (len(log) == 1 and len(log[0]['shape']) == 1 and len(forgz) == 1):
+            continue
+        dr, iv = log[0], forgz[0][0][2]
+        U.post('the-permutation-runs-over-the-rows-of-the-unfolding: r1*n (ltr) / n*r2 (rtl)', p,
+               Z(dr['shape'][0]) == z3.If(ltr, T.mul_canon(r1, n), T.mul_canon(n, r2)), qf=True)
+        ok = isinstance(iv, VArr) and iv.ndim == 1 and iv.tag == 'ivec' and iv.t is not None
+        U.post('with-z_rand-the-selection-for-Gz-is-an-index-vector-cut-from-the-permutation', [], z3.BoolVal(bool(ok)))
+        if ok:
+            U.post('the-selection-for-Gz-is-the-first-r2 (ltr) / r1 (rtl) entries-of-the-permutation', p,
+                   z3.And(Z(iv.shape[0]) == z3.If(ltr, r2, r1), z3.Implies(z3.And(0 <= sp_kk, sp_kk < Z(iv.shape[0])), iv.t[sp_kk] == dr['out'][sp_kk])),
+                   axioms=ex.axioms, mode='ematch')
+            U.post('the-selected-rows-exist-and-are-pairwise-distinct', p,
+                   z3.Implies(z3.And(0 <= sp_kk, sp_kk < sp_tt, sp_tt < Z(iv.shape[0])),
+                              z3.And(0 <= iv.t[sp_kk], iv.t[sp_kk] < Z(dr['shape'][0]), iv.t[sp_kk] != iv.t[sp_tt])), axioms=ex.axioms, mode='ematch')
+            U.canary('canary-the-selection-is-empty', p, Z(iv.shape[0]) == 0, axioms=ex.axioms)
+        U.canary('canary-return-path-is-contradictory', p, False, axioms=ex.axioms)
+    U.post('every-case-returns', [], z3.BoolVal(nret >= 1))
+
+
+for _sp_gz, _sp_zr in (('none', False), ('none', True), ('core', False), ('core', True)):
+    def _sp_mk_unit4(gz=_sp_gz, zr=_sp_zr):
+        @unit(f'cross_act._inter_update.Gz_{gz}.{"z_rand" if zr else "plain"}', props=('C10',))
+        def u(U):
+            _sp_inter_update_unit(U, gz, zr)
+    _sp_mk_unit4()
+
+
+def _sp_amen_z_unit(U, is_dz, rkind):
+    fn = U.func('cross_act', '_amen_z')
+    sig = U.func('core', 'core_qr_rand').params
+    st = U.state()
+    gen = R.VGen('param') if rkind == 'generator' else NONE
+    ltr = z3.Bool('ltr')
+    G, Gt = S.core_param('G')
+    dG, dGt = S.core_param('dG')
+    dr, dr2 = z3.Int('dr'), z3.Int('dr2')
+
+    def c_qr_rand(ex, s, a, k, node):
+        s.ghost['rest_sp_qr_rand'] = s.ghost.get('rest_sp_qr_rand', []) + [(list(a), dict(k))]
+        return M.VOpaque('core_qr_rand')
+
+    callees = {'core.core_qr_rand': c_qr_rand, 'utils._rand': CM.logging_rand, 'core.core_dot_inv': _sp_opaque('core_dot_inv'),
+               'cross_act._svd': _sp_opaque('svd', 3), 'utils._reshape': _sp_opaque('reshaped')}
+    ex = U.executor(fn, callees=callees, axioms=T.axioms('shape'), lenient=True)
+    ex.rest_sp = True
+    st.vars.update(G=G, dG=dG, R1=M.VOpaque('R1'), R2=M.VOpaque('R2'), dr=dr, dr2=dr2, is_dz=is_dz, ltr=ltr, rand=gen)
+    same = [T.d0(Gt) == T.d0(dGt), T.d1(Gt) == T.d1(dGt), T.d2(Gt) == T.d2(dGt)]
+    res = U.run(ex, st, pre=[] if is_dz else same)         # not is_dz: `G - dG` is formed before anything else (equal shapes required)
+    U.cover('precondition-satisfiable', U.pre, axioms=ex.axioms)
+    U.post('_amen_z-does-not-mention-np.random-or-random', [], z3.BoolVal(not _sp_mentions_global_rng(fn)))
+    nret = 0
+    for p, o in res:
+        if o.kind != 'return':
+            U.post('only-returns', p, False, axioms=ex.axioms)
+            continue
+        nret += 1
+        calls = p.ghost.get('rest_sp_qr_rand', [])
+        U.post('_rand-is-never-called-and-nothing-is-drawn-by-_amen_z-itself', [], z3.BoolVal(not p.ghost.get('randcalls') and not p.ghost.get('drawlog')))
+        if is_dz:
+            U.post('is_dz: core_qr_rand-is-not-called', [], z3.BoolVal(len(calls) == 0))
+        else:
+            U.post('not is_dz: exactly-one-call-of-core_qr_rand', [], z3.BoolVal(len(calls) == 1))
+            for a, k in calls[:1]:
+                sd, m_, l_ = [_sp_arg(a, k, sig, nm, None) for nm in ('seed', 'm', 'ltr')]
+                U.post('core_qr_rand-is-handed-the-object-that-came-in-as-`rand` as its `seed`', [], z3.BoolVal(sd is gen))
+                U.post('core_qr_rand-gets-dr2-random-rows-and-the-direction-of-the-sweep', [],
+                       z3.And(z3.BoolVal(m_ is dr2), Z(l_) == ltr if l_ is not None and M.is_boolv(l_) else z3.BoolVal(False)))
+        U.canary('canary-return-path-is-contradictory', p, False, axioms=ex.axioms)
+    U.post('both-directions-return', [], z3.BoolVal(nret == 2))
+
+
+for _sp_dz in (False, True):
+    for _sp_rk in ('generator', 'none'):
+        def _sp_mk_unit5(dz=_sp_dz, rk=_sp_rk):
+            @unit(f'cross_act._amen_z.{"is_dz" if dz else "plain"}.rand_{rk}', props=('C10',))
+            def u(U):
+                _sp_amen_z_unit(U, dz, rk)
+        _sp_mk_unit5()
+
+
+# ==============================================================================================
+# Hand-made mutants (MUT_BASE=/tmp/base tools/mut.sh <file> '<sed>' <unit>) and the NAMED obligation that reports each.
+# "undecided" = Unsupported / ContractMismatch (exit 2); "quiet" = equivalent rewrite, everything still proved.
+#
+# sample.sample_rand_poi.*  (sample.py)
+#   s/rand.uniform(a\[i\], b\[i\], int(m))/rand.uniform(b[i], a[i], int(m))/        post.column-k-is-draw-number-k: uniform(a_k, b_k, int(m)), post.every-coordinate-lies-between-its-limits (refuted)
+#   s/return np.vstack(X).T$/return np.vstack(X)/                                     post.float-array-of-shape-(int(m),d), one row per point (refuted)
+#   .. int(m)) -> .. int(m)+1)                                                         post.float-array-of-shape-(int(m),d).., post.column-k-is-draw-number-k..
+#   for i in range(d) -> for i in range(d-1)                                           post.float-array-of-shape.., post.column-k-is-draw-number-k.., post.exactly-d-draws
+#   b[i] -> b[0]                                                                       post.every-coordinate-lies-between-its-limits.., post.column-k-is-draw-number-k..
+#   b[i] -> b[i+1]                                                                     safety.list-index-in-range / safety.array-index-in-range (+ the two posts above)
+#   rand = teneva._rand(seed) -> rand = np.random.default_rng()                        post.seed-goes-through-_rand-exactly-once
+#   _rand(seed) -> _rand()                                                             post.seed-goes-through-_rand-exactly-once, post.a-generator-object-is-used-as-it-is
+#   _rand(seed) -> _rand(_rand(seed));  second _rand(seed) inside the comprehension    post.seed-goes-through-_rand-exactly-once
+#   d = len(a); a[0] = 0.                                                              post.argument-lists-are-not-modified (+ limits / draw-parameter posts)
+#   undecided: `rand = 0` and `teneva._rand(seed).uniform(..)` per element (generator per element: Unsupported by mx_rest.sp_listcomp);
+#              rand.normal(..) (Generator.normal with a positional size is not modelled);  np.array(X).T;  explicit for-loop with append
+#              (ContractMismatch: no invariant)
+#   quiet (equivalent): uniform(a[i], b[i], size=int(m));  for i in range(len(b))  (len(b) = len(a) is a precondition)
+# stat.cdf_confidence.*  (stat.py)
+#   s|np.log(2. / alpha)|np.log(1. / alpha)|                                           safety.sqrt-of-nonnegative (alpha in (1, 2]), post.the-logarithm-is-taken-of-2/alpha (default: ..= 40)
+#   s|np.log(2. / alpha)|np.log(alpha / 2.)|                                           safety.sqrt-of-nonnegative, post.the-logarithm-is-taken-of-2/alpha
+#   lower / upper swapped in the return statement                                      post.lower[i] = clip(x[i] - eps, 0, 1), post.upper[i] = .., post.0 <= lower[i] <= upper[i] <= 1, ..
+#   np.clip(x + eps, 0, 1) -> np.clip(x + eps, 0, 2)                                   post.upper[i] = clip(x[i] + eps, 0, 1), post.0 <= lower[i] <= upper[i] <= 1
+#   np.clip(x - eps, 0, 1) -> (.., -1, 1) / (.., 0, 1.5)                               post.lower[i] = clip(x[i] - eps, 0, 1), post.0 <= lower[i] <= upper[i] <= 1
+#   (2 * len(x)) -> (len(x))                                                           post.eps-is-the-non-negative-root: eps >= 0 and eps^2 * (2 m) = ln(2/alpha)
+#   np.sqrt dropped                                                                    post.eps-is-the-non-negative-root..
+#   x - eps -> x - 2 * eps                                                             post.lower[i] = clip(x[i] - eps, 0, 1), post.band-width <= 2 eps..
+#   np.log -> np.log2                                                                  safety.sqrt-of-nonnegative, post.eps-is-a-number-computed-with-one-logarithm
+#   alpha=0.05 -> alpha=0.5 in the signature                                           stat.cdf_confidence.alpha_default post.default-alpha-is-0.05-and-the-logarithm-is-taken-of-2/alpha = 40
+#   undecided: np.minimum(np.maximum(..)) (not in the model table);  (..) ** 0.5 instead of np.sqrt (ContractMismatch: mx_misc.power gives the
+#              fact-free powf);   quiet (equivalent): .. / 2 / len(x);  0.5 * np.log(..) / x.shape[0];  np.clip(-eps + x, 0., 1.);
+#              lo = x - eps; lo[lo < 0] = 0; lo[lo > 1] = 1  (masked stores of the pointwise tier)
+# cross_act.cross_act.control.*  (cross_act.py; control tier)
+#   teneva.rand(n, dr, seed=rand) -> seed=seed  /  seed dropped                        post.every-call-of-tensors.rand-is-handed-the-generator-returned-by-_rand(seed) as its `seed`
+#                                                                                      (seed=seed is equivalent for a Generator argument: quiet in ..seed_generator)
+#   _amen_z(.., dr, dr2, False, ltr, rand) -> (.., ltr)  /  (.., dr, None, True, ltr, None)     post.every-call-of-_amen_z-is-handed-the-generator.. as its `rand`
+#   _inter_update(.., Ryz[i], rand, z_rand=True, ..) -> None;  (.., rand, False, ltr) -> (.., teneva._rand(seed), False, ltr)
+#                                                                                      post.every-call-of-_inter_update-is-handed-the-generator.. (+ post.no-further-_rand-call-inside-a-loop)
+#   rand = teneva._rand(seed) -> rand = np.random.default_rng(seed)                    post.seed-goes-through-_rand-exactly-once, post.cross_act-does-not-mention-np.random-or-random, ..
+#   rand = teneva._rand(seed); np.random.seed(0)                                       post.cross_act-does-not-mention-np.random-or-random
+#   ju = i+1 if ltr else i-1 -> ju = i+1;   if ltr and i == d-1 -> i == d              safety.list-index-in-range (failed: e-matching context, no model)
+#   i, ltr, swp, e_curr = d, False, 0, 0. -> d+1, ..                                   inv-init.loop1.position-before-the-step: ltr -1..d-2, rtl 1..d
+#   undecided: local `rand` renamed (ContractMismatch);   quiet (equivalent): while not (swp > nswp);  i = i + 1 if ltr else i - 1;
+#              jn = i if not ltr else i+1;  keyword form `rand=rand, ltr=ltr` at a call site
+# cross_act._inter_update.*  (cross_act.py)
+#   rand.permutation(..) -> np.random.permutation(..)                                  post._inter_update-does-not-mention-np.random-or-random, post.exactly-one-draw-from-the-generator-parameter: a permutation
+#   rand.permutation(..) -> teneva._rand().permutation(..)                             post._rand-is-never-called, post.exactly-one-draw-from-the-generator-parameter..
+#   (r1*n if ltr else n*r2) -> (r1*n if ltr else r1*n)                                 post.the-permutation-runs-over-the-rows-of-the-unfolding: r1*n (ltr) / n*r2 (rtl)
+#   perm[:(r2 if ltr else r1)] -> perm[:(r1 if ltr else r2)]  /  perm[1:(..)]          post.the-selection-for-Gz-is-the-first-r2 (ltr) / r1 (rtl) entries-of-the-permutation
+#   if z_rand: -> if not z_rand:                                                       post.exactly-one-draw.. (z_rand), post.nothing-is-drawn + safety.slice-in-range (plain)
+#   core_dot_maxvol(Gy, Ry, None, ..) -> (Gy, Ry, rand.permutation(3), ..)             post.the-first-selection-is-left-to-maxvol (ind = None), post.nothing-is-drawn / exactly-one-draw..
+#   quiet (equivalent): local `perm` renamed
+# cross_act._amen_z.*  (cross_act.py)
+#   core_qr_rand(G, dr2, ltr, rand) -> (G, dr2, ltr)                                   post.core_qr_rand-is-handed-the-object-that-came-in-as-`rand` as its `seed`
+#   .. -> (G, dr2, ltr, teneva._rand(rand))                                            post._rand-is-never-called-and-nothing-is-drawn-by-_amen_z-itself
+#   .. -> (G, dr, ltr, rand)  /  (G, dr2, not ltr, rand)                               post.core_qr_rand-gets-dr2-random-rows-and-the-direction-of-the-sweep
+#   if not is_dz: -> if True:                                                          cross_act._amen_z.is_dz.* post.is_dz: core_qr_rand-is-not-called, call-pre.elementwise-shapes-agree
+#   quiet (equivalent): core_qr_rand(G, dr2, seed=rand, ltr=ltr)
